@@ -339,7 +339,8 @@ Qed.
 (* A document element is written down as the tokens it consists of, with the
    structure made explicit.  An argument group carries the MergedSpacer token
    that may precede it, its kind, its two delimiter tokens and its body.
-   An environment is  \ begin <name group> body \ end <name group>.
+   An environment is  \ begin <name group> <further arguments> body
+   \ end <name group>.
    An item is  \ item <argument groups> body,  the body extending up to the
    next \item, an \end, a closing brace or the end of the input. *)
 Inductive doc :=
@@ -347,7 +348,8 @@ Inductive doc :=
 | DGroup (o : token) (body : list doc) (c : token)
 | DCmd (e n : token) (args : list arg)
 | DMath (k : mathkind) (o : token) (body : list doc) (c : token)
-| DEnv (e b : token) (ng : arg) (body : list doc) (e2 en : token) (ng2 : arg)
+| DEnv (e b : token) (ng : arg) (xargs : list arg) (body : list doc)
+       (e2 en : token) (ng2 : arg)
 | DItem (e n : token) (args : list arg) (body : list doc)
 with arg :=
 | Arg (sp : option token) (k : groupkind) (o : token) (body : list doc) (c : token).
@@ -359,8 +361,9 @@ Section doc_ind'.
   Hypothesis HGroup : forall o b c, Forall P b -> P (DGroup o b c).
   Hypothesis HCmd : forall e n args, Forall Q args -> P (DCmd e n args).
   Hypothesis HMath : forall k o b c, Forall P b -> P (DMath k o b c).
-  Hypothesis HEnv : forall e b ng body e2 en ng2,
-      Q ng -> Forall P body -> Q ng2 -> P (DEnv e b ng body e2 en ng2).
+  Hypothesis HEnv : forall e b ng xargs body e2 en ng2,
+      Q ng -> Forall Q xargs -> Forall P body -> Q ng2 ->
+      P (DEnv e b ng xargs body e2 en ng2).
   Hypothesis HItem : forall e n args body,
       Forall Q args -> Forall P body -> P (DItem e n args body).
   Hypothesis HArg : forall sp k o b c, Forall P b -> Q (Arg sp k o b c).
@@ -381,8 +384,8 @@ Section doc_ind'.
     | DGroup o b c => HGroup o b c (go b)
     | DCmd e n args => HCmd e n args (goa args)
     | DMath k o b c => HMath k o b c (go b)
-    | DEnv e b ng body e2 en ng2 =>
-      HEnv e b ng body e2 en ng2 (arg_ind' ng) (go body) (arg_ind' ng2)
+    | DEnv e b ng xargs body e2 en ng2 =>
+      HEnv e b ng xargs body e2 en ng2 (arg_ind' ng) (goa xargs) (go body) (arg_ind' ng2)
     | DItem e n args body => HItem e n args body (goa args) (go body)
     end
   with arg_ind' (a : arg) : Q a :=
@@ -406,8 +409,9 @@ Fixpoint flat (d : doc) : list token :=
   | DGroup o b c => o :: concat (map flat b) ++ [c]
   | DCmd e n args => e :: n :: concat (map flat_arg args)
   | DMath _ o b c => o :: concat (map flat b) ++ [c]
-  | DEnv e b ng body e2 en ng2 =>
-    e :: b :: flat_arg ng ++ concat (map flat body) ++ e2 :: en :: flat_arg ng2
+  | DEnv e b ng xargs body e2 en ng2 =>
+    e :: b :: (flat_arg ng ++ concat (map flat_arg xargs)) ++ concat (map flat body) ++
+    e2 :: en :: flat_arg ng2
   | DItem e n args body => e :: n :: concat (map flat_arg args) ++ concat (map flat body)
   end
 with flat_arg (a : arg) : list token :=
@@ -425,8 +429,8 @@ Fixpoint tree (d : doc) : expr :=
   | DGroup o b _ => EGroup GBrace (map tree b) (tpos o)
   | DCmd e n args => ECmd (strip (ttext n)) (map tree_arg args) [] (tpos e)
   | DMath k o b _ => EMath k (map tree b) (tpos o)
-  | DEnv e _ ng body _ _ _ =>
-    ENamed (strip (arg_string (tree_arg ng))) [] (map tree body) (tpos e)
+  | DEnv e _ ng xargs body _ _ _ =>
+    ENamed (strip (arg_string (tree_arg ng))) (map tree_arg xargs) (map tree body) (tpos e)
   | DItem e n args body =>
     ECmd (strip (ttext n)) (map tree_arg args) (map tree body) (tpos e)
   end
@@ -466,7 +470,7 @@ Definition dhead (d : doc) : token :=
   | DGroup o _ _ => o
   | DCmd e _ _ => e
   | DMath _ o _ _ => o
-  | DEnv e _ _ _ _ _ _ => e
+  | DEnv e _ _ _ _ _ _ _ => e
   | DItem e _ _ _ => e
   end.
 
@@ -481,11 +485,75 @@ Definition arg_kind (a : arg) : groupkind := match a with Arg _ k _ _ _ => k end
 Definition is_brace_arg (a : arg) : bool := groupkind_beq (arg_kind a) GBrace.
 Definition is_bracket_arg (a : arg) : bool := groupkind_beq (arg_kind a) GBracket.
 
-(* what may follow a command whose arguments are `args` *)
-Definition cmd_follow (args : list arg) (rest : list token) : bool :=
-  stopsb TGroupBegin rest &&
-  (if existsb is_brace_arg args then head_notb TBracketBegin rest
-   else stopsb TBracketBegin rest).
+Definition no_spacer (a : arg) : bool :=
+  match a with Arg None _ _ _ _ => true | Arg (Some _) _ _ _ _ => false end.
+Definition head_no_spacer (l : list arg) : bool :=
+  match l with a :: _ => no_spacer a | [] => true end.
+Definition nonempty {A} (l : list A) : bool := match l with [] => false | _ :: _ => true end.
+
+(* the longest prefix of groups of kind k *)
+Fixpoint take_kind (k : groupkind) (l : list arg) : list arg * list arg :=
+  match l with
+  | a :: l' =>
+    if groupkind_beq (arg_kind a) k
+    then let (x, y) := take_kind k l' in (a :: x, y)
+    else ([], l)
+  | [] => ([], [])
+  end.
+
+(* the four runs read_args can read with "as many as there are" counts:
+   brackets, braces (first pass), brackets, braces (second pass) *)
+Definition split4 (args : list arg) :=
+  let (b1, r1) := take_kind GBracket args in
+  let (c1, r2) := take_kind GBrace r1 in
+  let (b2, r3) := take_kind GBracket r2 in
+  let (c2, r4) := take_kind GBrace r3 in
+  (b1, c1, b2, c2, r4).
+
+Definition free_sig : Z * Z := ((-1)%Z, (-1)%Z).
+Definition is_free (sg : Z * Z) : bool := (fst sg =? -1)%Z && (snd sg =? -1)%Z.
+Definition is_zero (sg : Z * Z) : bool := (fst sg =? 0)%Z && (snd sg =? 0)%Z.
+
+(* which argument lists a command of signature sg = (required, optional) can
+   be written with.
+   free signature: the four runs and nothing more; the second pass is entered
+   without skipping a spacer, so the first group of each second-pass run has
+   no spacer before it.
+   fixed signature (0,0): no arguments.  Otherwise: at most `optional`
+   bracket groups, then exactly `required` brace groups. *)
+Definition cmd_shape (sg : Z * Z) (args : list arg) : bool :=
+  if is_free sg then
+    let '(_, _, b2, c2, r4) := split4 args in
+    negb (nonempty r4) && head_no_spacer b2 && head_no_spacer c2
+  else
+    (0 <=? fst sg)%Z && (0 <=? snd sg)%Z &&
+    (if is_zero sg then negb (nonempty args)
+     else let (bs, r1) := take_kind GBracket args in
+          let (cs, r2) := take_kind GBrace r1 in
+          negb (nonempty r2) && (Z.of_nat (length bs) <=? snd sg)%Z &&
+          (Z.of_nat (length cs) =? fst sg)%Z).
+
+(* what may follow a command of signature sg whose arguments are `args`,
+   in terms of four facts about the following tokens:
+     sg_ = after an optional spacer the next token is not `{`
+     sb_ = after an optional spacer the next token is not `[`
+     hb_ = the very next token is not `[`     hg_ = the very next token is not `{` *)
+Definition cmd_follow_b (sg : Z * Z) (args : list arg) (sg_ sb_ hb_ hg_ : bool) : bool :=
+  if is_free sg then
+    let '(_, c1, b2, c2, _) := split4 args in
+    match b2, c2 with
+    | [], _ => sg_ && (if nonempty c1 then hb_ else sb_)
+    | _ :: _, [] => sb_ && hg_
+    | _ :: _, _ :: _ => sg_
+    end
+  else
+    if is_zero sg then true
+    else let (bs, _) := take_kind GBracket args in
+         (Z.of_nat (length bs) =? snd sg)%Z || (if (fst sg =? 0)%Z then sb_ else hb_).
+
+Definition cmd_follow (sg : Z * Z) (args : list arg) (rest : list token) : bool :=
+  cmd_follow_b sg args (stopsb TGroupBegin rest) (stopsb TBracketBegin rest)
+               (head_notb TBracketBegin rest) (head_notb TGroupBegin rest).
 
 (* where an item body stops: at the end of the input, before `\end` or
    `\item` (the token after an escape names the command), before a `}` *)
@@ -501,21 +569,12 @@ Definition item_stop_b (rest : list token) : bool :=
     else is_tc TGroupEnd t
   end.
 
-(* bracket groups before brace groups: the first pass of read_args only *)
-Fixpoint brackets_first (ks : list groupkind) : bool :=
-  match ks with
-  | [] => true
-  | GBracket :: ks' => brackets_first ks'
-  | GBrace :: ks' => forallb (fun k => groupkind_beq k GBrace) ks'
-  end.
-
 Definition opens_group_kind (k : groupkind) (o : token) : bool :=
   match group_tok_begin k with Some b => is_tc b o | None => false end.
 Definition opens_math_kind (k : mathkind) (o : token) : bool :=
   match math_tok_begin k with Some b => is_tc b o | None => false end.
 
 Definition name_ok (n : token) : bool :=
-  (let '(a, b) := signature_of (ttext n) in Z.eqb a (-1) && Z.eqb b (-1)) &&
   negb (str_eqb (ttext n) s_item) && negb (str_eqb (ttext n) s_begin) &&
   negb (str_eqb (ttext n) s_end) &&
   negb (mem_str (ttext n) Tables.special_commands).
@@ -550,22 +609,23 @@ Fixpoint wf (mm : bool) (d : doc) {struct d} : bool :=
   | DGroup o b c =>
     is_tc TGroupBegin o && is_group_end GBrace c && seq_wf (wf false) follows_ok (CGroup GBrace) b [c]
   | DCmd e n args =>
-    is_tc TEscape e && name_ok n && brackets_first (map arg_kind args) &&
+    is_tc TEscape e && name_ok n && cmd_shape (signature_of (ttext n)) args &&
     forallb (wf_arg mm) args
   | DMath k o b c =>
     opens_math_kind k o && is_math_end k c && seq_wf (wf true) follows_ok (CMath k) b [c]
-  | DEnv e b ng body e2 en ng2 =>
+  | DEnv e b ng xargs body e2 en ng2 =>
     is_tc TEscape e && str_eqb (ttext b) s_begin &&
     wf_arg mm ng && is_brace_arg ng &&
     negb (mem_str (env_name ng) Tables.math_env_names) && negb (mem_str (env_name ng) SK) &&
-    cmd_follow [ng] (flat_list body ++ [e2]) &&
+    cmd_shape free_sig (ng :: xargs) && forallb (wf_arg mm) xargs &&
+    cmd_follow free_sig (ng :: xargs) (flat_list body ++ [e2]) &&
     seq_wf (wf mm) follows_ok CEnv body [e2; en] &&
     is_tc TEscape e2 && str_eqb (ttext en) s_end &&
     wf_arg mm ng2 && is_brace_arg ng2 &&
     str_eqb (arg_string (tree_arg ng2)) (env_name ng)
   | DItem e n args body =>
     negb mm && is_tc TEscape e && str_eqb (ttext n) s_item &&
-    brackets_first (map arg_kind args) && forallb (wf_arg mm) args
+    cmd_shape free_sig args && forallb (wf_arg mm) args
   end
 with wf_arg (mm : bool) (a : arg) {struct a} : bool :=
   match a with
@@ -575,10 +635,10 @@ with wf_arg (mm : bool) (a : arg) {struct a} : bool :=
   end
 with follows_ok (d : doc) (rest : list token) {struct d} : bool :=
   match d with
-  | DCmd _ _ args => cmd_follow args rest
-  | DEnv _ _ _ _ _ _ ng2 => cmd_follow [ng2] rest
+  | DCmd _ n args => cmd_follow (signature_of (ttext n)) args rest
+  | DEnv _ _ _ _ _ _ _ ng2 => cmd_follow free_sig [ng2] rest
   | DItem _ _ args body =>
-    cmd_follow args (flat_list body ++ rest) &&
+    cmd_follow free_sig args (flat_list body ++ rest) &&
     seq_wf (wf false) follows_ok CItem body rest &&
     item_stop_b rest
   | _ => true
@@ -621,9 +681,9 @@ Lemma flat_cmd e n args : flat (DCmd e n args) = e :: n :: flat_args args.
 Proof. reflexivity. Qed.
 Lemma flat_math k o b c : flat (DMath k o b c) = o :: flat_list b ++ [c].
 Proof. reflexivity. Qed.
-Lemma flat_env e b ng body e2 en ng2 :
-  flat (DEnv e b ng body e2 en ng2) =
-  e :: b :: flat_arg ng ++ flat_list body ++ e2 :: en :: flat_arg ng2.
+Lemma flat_env e b ng xargs body e2 en ng2 :
+  flat (DEnv e b ng xargs body e2 en ng2) =
+  e :: b :: flat_args (ng :: xargs) ++ flat_list body ++ e2 :: en :: flat_arg ng2.
 Proof. reflexivity. Qed.
 Lemma flat_item e n args body :
   flat (DItem e n args body) = e :: n :: flat_args args ++ flat_list body.
@@ -638,19 +698,20 @@ Lemma wf_group mm o b c :
 Proof. reflexivity. Qed.
 Lemma wf_cmd mm e n args :
   wf mm (DCmd e n args) =
-  is_tc TEscape e && name_ok n && brackets_first (map arg_kind args) &&
+  is_tc TEscape e && name_ok n && cmd_shape (signature_of (ttext n)) args &&
   forallb (wf_arg mm) args.
 Proof. reflexivity. Qed.
 Lemma wf_math mm k o b c :
   wf mm (DMath k o b c) =
   opens_math_kind k o && is_math_end k c && wf_seq true (CMath k) b [c].
 Proof. reflexivity. Qed.
-Lemma wf_env mm e b ng body e2 en ng2 :
-  wf mm (DEnv e b ng body e2 en ng2) =
+Lemma wf_env mm e b ng xargs body e2 en ng2 :
+  wf mm (DEnv e b ng xargs body e2 en ng2) =
   is_tc TEscape e && str_eqb (ttext b) s_begin &&
   wf_arg mm ng && is_brace_arg ng &&
   negb (mem_str (env_name ng) Tables.math_env_names) && negb (mem_str (env_name ng) SK) &&
-  cmd_follow [ng] (flat_list body ++ [e2]) &&
+  cmd_shape free_sig (ng :: xargs) && forallb (wf_arg mm) xargs &&
+  cmd_follow free_sig (ng :: xargs) (flat_list body ++ [e2]) &&
   wf_seq mm CEnv body [e2; en] &&
   is_tc TEscape e2 && str_eqb (ttext en) s_end &&
   wf_arg mm ng2 && is_brace_arg ng2 &&
@@ -659,11 +720,12 @@ Proof. reflexivity. Qed.
 Lemma wf_item mm e n args body :
   wf mm (DItem e n args body) =
   negb mm && is_tc TEscape e && str_eqb (ttext n) s_item &&
-  brackets_first (map arg_kind args) && forallb (wf_arg mm) args.
+  cmd_shape free_sig args && forallb (wf_arg mm) args.
 Proof. reflexivity. Qed.
 Lemma follows_ok_item e n args body rest :
   follows_ok (DItem e n args body) rest =
-  cmd_follow args (flat_list body ++ rest) && wf_seq false CItem body rest && item_stop_b rest.
+  cmd_follow free_sig args (flat_list body ++ rest) && wf_seq false CItem body rest &&
+  item_stop_b rest.
 Proof. reflexivity. Qed.
 Lemma wf_arg_eq mm sp k o b c :
   wf_arg mm (Arg sp k o b c) =
@@ -751,14 +813,16 @@ Proof.
   - destruct (is_tc TMergedSpacer x); reflexivity.
 Qed.
 
-Lemma cmd_follow_ext args l c tl r :
+Lemma cmd_follow_ext sg args l c tl r :
   is_tc TMergedSpacer c = false ->
-  cmd_follow args (l ++ c :: tl) = cmd_follow args (l ++ c :: tl ++ r).
+  cmd_follow sg args (l ++ c :: tl) = cmd_follow sg args (l ++ c :: tl ++ r).
 Proof.
   intro Hc. unfold cmd_follow, stopsb.
   rewrite <- !(head_after_spacer_ext l c tl r Hc).
   replace (head_notb TBracketBegin (l ++ c :: tl ++ r))
     with (head_notb TBracketBegin (l ++ c :: tl)) by (destruct l; reflexivity).
+  replace (head_notb TGroupBegin (l ++ c :: tl ++ r))
+    with (head_notb TGroupBegin (l ++ c :: tl)) by (destruct l; reflexivity).
   reflexivity.
 Qed.
 
@@ -781,12 +845,12 @@ Proof.
                      follows_ok d (l ++ c :: tl) = follows_ok d (l ++ c :: tl ++ r))
                   (fun _ => True)); try (intros; exact I); try (intros; reflexivity).
   - intros e n args _ l c tl r [Hc _]. cbn [follows_ok]. apply cmd_follow_ext. exact Hc.
-  - intros e b ng body e2 en ng2 _ _ _ l c tl r [Hc _]. cbn [follows_ok].
+  - intros e b ng xargs body e2 en ng2 _ _ _ _ l c tl r [Hc _]. cbn [follows_ok].
     apply cmd_follow_ext. exact Hc.
   - intros e n args body _ Hbody l c tl r [Hc He]. rewrite !follows_ok_item.
     rewrite (item_stop_b_ext l c tl r He).
     rewrite !(app_assoc (flat_list body) l).
-    rewrite (cmd_follow_ext args (flat_list body ++ l) c tl r Hc).
+    rewrite (cmd_follow_ext free_sig args (flat_list body ++ l) c tl r Hc).
     f_equal. f_equal.
     induction Hbody as [|d ds Hd _ IH]; [reflexivity|].
     rewrite !wf_seq_cons. rewrite IH.
@@ -812,4 +876,1261 @@ Lemma ext_ok_math_end k c : is_math_end k c = true -> ext_ok c [].
 Proof.
   intro H. split; [exact (math_end_not_spacer k c H) | left; exact (math_end_not_escape k c H)].
 Qed.
+
+(* ====================================================================== *)
+(* Stage 2: completeness                                                  *)
+(* ====================================================================== *)
+
+(* "for every sufficiently large fuel, F returns r" *)
+Definition Reads {A} (F : nat -> res A) (r : res A) : Prop :=
+  exists f0, forall f, (f0 <= f)%nat -> F f = r.
+
+(* the look-ahead of read_item on what follows an item: when that starts
+   with an escape, read_item reads the whole command there - strictly, in
+   non-math mode - before it looks at the name; that read must succeed *)
+Definition head_peek (R : list token) : Prop :=
+  forall e src, R = e :: src -> is_tc TEscape e = true ->
+  exists r, Reads (fun f => read_command f (-1) (-1) 1 true MNonMath R) (Ok r).
+
+Definition peek_ok (d : doc) (R : list token) : Prop :=
+  if is_item d then head_peek R else True.
+
+Definition PPd (d : doc) : Prop := forall skip strict m rest,
+  mode_is_special m = false -> sub_skip SK skip ->
+  wf (mode_is_math m) d = true -> follows_ok d rest = true -> peek_ok d rest ->
+  Reads (fun f => read_expr f skip strict m (flat d ++ rest)) (Ok (tree d, rest)).
+
+Definition arg_open (a : arg) : token := match a with Arg _ _ o _ _ => o end.
+Definition arg_inner (a : arg) : list token :=
+  match a with Arg _ _ _ b c => flat_list b ++ [c] end.
+
+Definition PPa (a : arg) : Prop := forall strict m rest,
+  mode_is_special m = false -> wf_arg (mode_is_math m) a = true ->
+  Reads (fun f => read_arg f (arg_open a) strict m (arg_inner a ++ rest))
+        (Ok (tree_arg a, rest)).
+
+Lemma sub_skip_nil : sub_skip SK [].
+Proof. intros n H. unfold mem_str in H. simpl in H. discriminate H. Qed.
+
+Lemma wf_arg_parts mm sp k o b c :
+  wf_arg mm (Arg sp k o b c) = true ->
+  match sp with Some s => is_tc TMergedSpacer s | None => true end = true /\
+  opens_group_kind k o = true /\ is_group_end k c = true /\
+  wf_seq mm (CGroup k) b [c] = true.
+Proof.
+  rewrite wf_arg_eq. intro Hwf.
+  apply andb_true_iff in Hwf. destruct Hwf as [Hwf H4].
+  apply andb_true_iff in Hwf. destruct Hwf as [Hwf H3].
+  apply andb_true_iff in Hwf. destruct Hwf as [H1 H2]. auto.
+Qed.
+
+(* a brace group met by read_expr *)
+Lemma read_expr_group_open f skip strict m o src :
+  is_tc TGroupBegin o = true ->
+  read_expr (S f) skip strict m (o :: src) = read_arg f o strict MNonMath src.
+Proof.
+  intro H. destruct (group_begin_facts o H) as [H1 H2].
+  cbn [read_expr]. rewrite H1, H2, H. reflexivity.
+Qed.
+
+(* ---------------------------------------------------- argument loops *)
+
+Lemma stopsb_stops k toks :
+  stopsb k toks = true ->
+  match head_after_spacer toks with Some c => is_tc k c = false | None => True end.
+Proof.
+  unfold stopsb. destruct (head_after_spacer toks); [|intros; exact I].
+  intro H. apply negb_true_iff. exact H.
+Qed.
+
+(* what read_spacer leaves in front of an argument group *)
+Lemma arg_after_spacer sp k o b c X :
+  match sp with Some s => is_tc TMergedSpacer s | None => true end = true ->
+  is_tc TMergedSpacer o = false ->
+  snd (read_spacer (flat_arg (Arg sp k o b c) ++ X)) = o :: arg_inner (Arg sp k o b c) ++ X.
+Proof.
+  intros Hs Ho. rewrite flat_arg_eq. cbn [arg_inner]. unfold read_spacer.
+  destruct sp as [s|]; cbn [opt_tok app].
+  - rewrite Hs. reflexivity.
+  - rewrite Ho. reflexivity.
+Qed.
+
+Lemma head_after_spacer_arg sp k o b c X :
+  match sp with Some s => is_tc TMergedSpacer s | None => true end = true ->
+  is_tc TMergedSpacer o = false ->
+  head_after_spacer (flat_arg (Arg sp k o b c) ++ X) = Some o.
+Proof.
+  intros Hs Ho. unfold head_after_spacer. rewrite (arg_after_spacer sp k o b c X Hs Ho).
+  reflexivity.
+Qed.
+
+Lemma opt_zero f args strict m toks :
+  read_arg_optional (S f) args 0 strict m toks = Ok ((args, 0%Z), toks).
+Proof. reflexivity. Qed.
+
+Lemma req_zero f args strict m toks :
+  read_arg_required (S f) args 0 strict m toks = Ok ((args, 0%Z), toks).
+Proof. reflexivity. Qed.
+
+(* the bracket loop: all of `bs` (the count allows it), then stop: because
+   the count is used up, or because no `[` follows *)
+Lemma opt_loop bs : Forall PPa bs -> forall acc nopt strict m tail,
+  mode_is_special m = false ->
+  (nopt < 0 \/ Z.of_nat (length bs) <= nopt)%Z ->
+  forallb (wf_arg (mode_is_math m)) bs = true -> forallb is_bracket_arg bs = true ->
+  ((nopt - Z.of_nat (length bs) = 0)%Z \/ stopsb TBracketBegin tail = true) ->
+  Reads (fun f => read_arg_optional f acc nopt strict m (flat_args bs ++ tail))
+        (Ok ((acc ++ map tree_arg bs, (nopt - Z.of_nat (length bs))%Z), tail)).
+Proof.
+  induction 1 as [|a bs Ha Hbs IH]; intros acc nopt strict m tail Hm Hn Hw Hk Hs.
+  - exists 1%nat. intros f Hf. destruct f as [|f]; [lia|].
+    change (flat_args [] ++ tail) with tail. simpl map. simpl length.
+    rewrite app_nil_r, Z.sub_0_r. simpl length in Hs. rewrite Z.sub_0_r in Hs.
+    destruct Hs as [Hz|Hs].
+    + rewrite Hz. apply opt_zero.
+    + apply C09_other_token_detaches_opt. apply stopsb_stops. exact Hs.
+  - cbn [forallb] in Hw, Hk.
+    apply andb_true_iff in Hw. destruct Hw as [Hwa Hw].
+    apply andb_true_iff in Hk. destruct Hk as [Hka Hk].
+    destruct a as [sp k o b c].
+    unfold is_bracket_arg in Hka. cbn [arg_kind] in Hka. apply groupkind_eqb_eq in Hka. subst k.
+    destruct (wf_arg_parts _ _ _ _ _ _ Hwa) as (W1 & W2 & W3 & W4).
+    apply opens_group_kind_spec in W2. destruct W2 as (_ & _ & Ho & Hob).
+    cbn [length] in Hn, Hs. rewrite Nat2Z.inj_succ in Hn, Hs.
+    destruct (Ha strict m (flat_args bs ++ tail) Hm Hwa) as [f1 F1].
+    destruct (IH (acc ++ [tree_arg (Arg sp GBracket o b c)]) (nopt - 1)%Z strict m tail
+                 Hm ltac:(lia) Hw Hk ltac:(destruct Hs; [left; lia | right; assumption]))
+      as [f2 F2].
+    exists (S (Nat.max f1 f2)). intros f Hf. destruct f as [|f]; [lia|].
+    rewrite flat_args_cons, <- app_assoc.
+    rewrite (C09_attach_step_opt f acc nopt strict m _ o
+               (arg_inner (Arg sp GBracket o b c) ++ flat_args bs ++ tail)
+               (tree_arg (Arg sp GBracket o b c)) (flat_args bs ++ tail)).
+    + rewrite F2 by lia. rewrite <- app_assoc. cbn [map app length].
+      rewrite Nat2Z.inj_succ.
+      replace (nopt - 1 - Z.of_nat (length bs))%Z with (nopt - Z.succ (Z.of_nat (length bs)))%Z
+        by lia.
+      reflexivity.
+    + lia.
+    + apply arg_after_spacer; assumption.
+    + exact Hob.
+    + apply (F1 f). lia.
+Qed.
+
+(* the brace loop *)
+Lemma req_loop cs : Forall PPa cs -> forall acc nreq strict m tail,
+  mode_is_special m = false ->
+  (nreq < 0 \/ Z.of_nat (length cs) <= nreq)%Z ->
+  forallb (wf_arg (mode_is_math m)) cs = true -> forallb is_brace_arg cs = true ->
+  ((nreq - Z.of_nat (length cs) = 0)%Z \/
+   ((nreq - Z.of_nat (length cs) < 0)%Z /\ stopsb TGroupBegin tail = true)) ->
+  Reads (fun f => read_arg_required f acc nreq strict m (flat_args cs ++ tail))
+        (Ok ((acc ++ map tree_arg cs, (nreq - Z.of_nat (length cs))%Z), tail)).
+Proof.
+  induction 1 as [|a cs Ha Hcs IH]; intros acc nreq strict m tail Hm Hn Hw Hk Hs.
+  - exists 1%nat. intros f Hf. destruct f as [|f]; [lia|].
+    change (flat_args [] ++ tail) with tail. simpl map. simpl length.
+    rewrite app_nil_r, Z.sub_0_r. simpl length in Hs. rewrite Z.sub_0_r in Hs.
+    destruct Hs as [Hz|[Hlt Hs]].
+    + rewrite Hz. apply req_zero.
+    + apply C09_other_token_detaches_req; [lia|]. apply stopsb_stops. exact Hs.
+  - cbn [forallb] in Hw, Hk.
+    apply andb_true_iff in Hw. destruct Hw as [Hwa Hw].
+    apply andb_true_iff in Hk. destruct Hk as [Hka Hk].
+    destruct a as [sp k o b c].
+    unfold is_brace_arg in Hka. cbn [arg_kind] in Hka. apply groupkind_eqb_eq in Hka. subst k.
+    destruct (wf_arg_parts _ _ _ _ _ _ Hwa) as (W1 & W2 & W3 & W4).
+    apply opens_group_kind_spec in W2. destruct W2 as (_ & _ & Ho & Hob).
+    cbn [length] in Hn, Hs. rewrite Nat2Z.inj_succ in Hn, Hs.
+    destruct (Ha strict m (flat_args cs ++ tail) Hm Hwa) as [f1 F1].
+    destruct (IH (acc ++ [tree_arg (Arg sp GBrace o b c)]) (nreq - 1)%Z strict m tail
+                 Hm ltac:(lia) Hw Hk
+                 ltac:(destruct Hs as [Hs|[Hs1 Hs2]]; [left; lia | right; split; [lia | assumption]]))
+      as [f2 F2].
+    exists (S (Nat.max f1 f2)). intros f Hf. destruct f as [|f]; [lia|].
+    rewrite flat_args_cons, <- app_assoc.
+    rewrite (C09_attach_step_req f acc nreq strict m _ o
+               (arg_inner (Arg sp GBrace o b c) ++ flat_args cs ++ tail)
+               (tree_arg (Arg sp GBrace o b c)) (flat_args cs ++ tail)).
+    + rewrite F2 by lia. rewrite <- app_assoc. cbn [map app length].
+      rewrite Nat2Z.inj_succ.
+      replace (nreq - 1 - Z.of_nat (length cs))%Z with (nreq - Z.succ (Z.of_nat (length cs)))%Z
+        by lia.
+      reflexivity.
+    + lia.
+    + apply arg_after_spacer; assumption.
+    + exact Hob.
+    + apply (F1 f). lia.
+Qed.
+
+Lemma stopsb_head k toks :
+  k <> TMergedSpacer -> stopsb k toks = true -> head_notb k toks = true.
+Proof.
+  intros Hk H. apply stopsb_stops in H.
+  pose proof (stops_at_head k toks Hk H) as H'. unfold head_notb.
+  destruct toks as [|t ts]; [reflexivity|]. rewrite H'. reflexivity.
+Qed.
+
+(* ----------------------------------------------- runs of argument groups *)
+
+Lemma take_kind_spec k l : forall x y, take_kind k l = (x, y) ->
+  l = x ++ y /\ forallb (fun a => groupkind_beq (arg_kind a) k) x = true /\
+  match y with a :: _ => groupkind_beq (arg_kind a) k = false | [] => True end.
+Proof.
+  induction l as [|a l IH]; intros x y H; cbn [take_kind] in H.
+  - inversion H; subst. repeat split.
+  - destruct (groupkind_beq (arg_kind a) k) eqn:E.
+    + destruct (take_kind k l) as [x' y'] eqn:Et. inversion H; subst.
+      destruct (IH x' y eq_refl) as (-> & Hx & Hy).
+      split; [reflexivity|]. split; [|exact Hy]. cbn [forallb]. rewrite E, Hx. reflexivity.
+    + inversion H; subst. split; [reflexivity|]. split; [reflexivity | exact E].
+Qed.
+
+Lemma take_kind_stuck k l :
+  match l with a :: _ => groupkind_beq (arg_kind a) k = false | [] => True end ->
+  take_kind k l = ([], l).
+Proof. destruct l as [|a l]; [reflexivity|]. intro H. cbn [take_kind]. rewrite H. reflexivity. Qed.
+
+Lemma kind_excl a : groupkind_beq (arg_kind a) GBrace = negb (groupkind_beq (arg_kind a) GBracket).
+Proof. destruct (arg_kind a); reflexivity. Qed.
+
+(* the head of a run of groups of kind k, seen through read_spacer *)
+Lemma run_head_after_spacer mm k a l X :
+  wf_arg mm a = true -> groupkind_beq (arg_kind a) k = true ->
+  exists o, head_after_spacer (flat_args (a :: l) ++ X) = Some o /\
+            is_tc (match k with GBrace => TGroupBegin | GBracket => TBracketBegin end) o = true.
+Proof.
+  destruct a as [sp k' o b c]. cbn [arg_kind]. intros Hw Hk. apply groupkind_eqb_eq in Hk. subst k'.
+  destruct (wf_arg_parts _ _ _ _ _ _ Hw) as (W1 & W2 & _).
+  apply opens_group_kind_spec in W2. destruct W2 as (_ & _ & Ho & Hob).
+  exists o. split; [|exact Hob].
+  rewrite flat_args_cons, <- app_assoc. apply head_after_spacer_arg; assumption.
+Qed.
+
+(* the head of a run whose first group has no spacer *)
+Lemma run_head_direct mm k a l X :
+  wf_arg mm a = true -> groupkind_beq (arg_kind a) k = true -> no_spacer a = true ->
+  exists o Y, flat_args (a :: l) ++ X = o :: Y /\
+              is_tc (match k with GBrace => TGroupBegin | GBracket => TBracketBegin end) o = true.
+Proof.
+  destruct a as [sp k' o b c]. cbn [arg_kind]. intros Hw Hk Hs. apply groupkind_eqb_eq in Hk.
+  subst k'. destruct sp as [s|]; [discriminate Hs|].
+  destruct (wf_arg_parts _ _ _ _ _ _ Hw) as (_ & W2 & _).
+  apply opens_group_kind_spec in W2. destruct W2 as (_ & _ & _ & Hob).
+  exists o. eexists. split; [|exact Hob].
+  rewrite flat_args_cons, flat_arg_eq. cbn [opt_tok app]. reflexivity.
+Qed.
+
+(* read_args, free signature: the four runs *)
+Lemma args_read_free b1 c1 b2 c2 :
+  Forall PPa b1 -> Forall PPa c1 -> Forall PPa b2 -> Forall PPa c2 ->
+  forall strict m rest, mode_is_special m = false ->
+  forallb (wf_arg (mode_is_math m)) b1 = true -> forallb is_bracket_arg b1 = true ->
+  forallb (wf_arg (mode_is_math m)) c1 = true -> forallb is_brace_arg c1 = true ->
+  forallb (wf_arg (mode_is_math m)) b2 = true -> forallb is_bracket_arg b2 = true ->
+  forallb (wf_arg (mode_is_math m)) c2 = true -> forallb is_brace_arg c2 = true ->
+  (c1 = [] -> b2 = []) -> (b2 = [] -> c2 = []) ->
+  head_no_spacer b2 = true -> head_no_spacer c2 = true ->
+  match b2, c2 with
+  | [], _ => stopsb TGroupBegin rest &&
+             (if nonempty c1 then head_notb TBracketBegin rest else stopsb TBracketBegin rest)
+  | _ :: _, [] => stopsb TBracketBegin rest && head_notb TGroupBegin rest
+  | _ :: _, _ :: _ => stopsb TGroupBegin rest
+  end = true ->
+  Reads (fun f => read_args f (-1) (-1) strict m
+                    (flat_args (b1 ++ c1 ++ b2 ++ c2) ++ rest))
+        (Ok (map tree_arg (b1 ++ c1 ++ b2 ++ c2), rest)).
+Proof.
+  intros Hb1 Hc1 Hb2 Hc2 strict m rest Hm Wb1 Kb1 Wc1 Kc1 Wb2 Kb2 Wc2 Kc2 E12 E23 N2 N3 Hfol.
+  (* the stop conditions of the four loops *)
+  assert (S1 : stopsb TBracketBegin (flat_args c1 ++ flat_args b2 ++ flat_args c2 ++ rest) = true).
+  { destruct c1 as [|a c1'].
+    - rewrite (E12 eq_refl) in *. rewrite (E23 eq_refl) in *. cbn [nonempty] in Hfol.
+      apply andb_true_iff in Hfol. exact (proj2 Hfol).
+    - cbn [forallb] in Wc1, Kc1.
+      apply andb_true_iff in Wc1. destruct Wc1 as [Wa _].
+      apply andb_true_iff in Kc1. destruct Kc1 as [Ka _].
+      destruct (run_head_after_spacer _ GBrace a c1' (flat_args b2 ++ flat_args c2 ++ rest) Wa Ka)
+        as (o & Ho & Hob).
+      unfold stopsb. rewrite Ho. rewrite (is_tc_excl _ TBracketBegin _ Hob); [reflexivity|discriminate]. }
+  assert (S2 : stopsb TGroupBegin (flat_args b2 ++ flat_args c2 ++ rest) = true).
+  { destruct b2 as [|a b2'].
+    - rewrite (E23 eq_refl) in *. apply andb_true_iff in Hfol. exact (proj1 Hfol).
+    - cbn [forallb] in Wb2, Kb2.
+      apply andb_true_iff in Wb2. destruct Wb2 as [Wa _].
+      apply andb_true_iff in Kb2. destruct Kb2 as [Ka _].
+      destruct (run_head_after_spacer _ GBracket a b2' (flat_args c2 ++ rest) Wa Ka)
+        as (o & Ho & Hob).
+      unfold stopsb. rewrite Ho. rewrite (is_tc_excl _ TGroupBegin _ Hob); [reflexivity|discriminate]. }
+  assert (Neg1 : forall n : nat, (-1 < 0 \/ Z.of_nat n <= -1)%Z) by (intro; lia).
+  assert (Neg2 : forall n : nat, (-1 - Z.of_nat n < 0)%Z) by (intro; lia).
+  assert (Neg3 : forall n k : nat, (-1 - Z.of_nat n < 0 \/ Z.of_nat k <= -1 - Z.of_nat n)%Z)
+    by (intros; lia).
+  assert (Neg4 : forall n k : nat, (-1 - Z.of_nat n - Z.of_nat k < 0)%Z) by (intros; lia).
+  destruct (opt_loop b1 Hb1 [] (-1)%Z strict m (flat_args c1 ++ flat_args b2 ++ flat_args c2 ++ rest)
+                     Hm (Neg1 _) Wb1 Kb1 (or_intror S1)) as [f1 F1].
+  destruct (req_loop c1 Hc1 ([] ++ map tree_arg b1) (-1)%Z strict m
+                     (flat_args b2 ++ flat_args c2 ++ rest)
+                     Hm (Neg1 _) Wc1 Kc1 (or_intror (conj (Neg2 _) S2))) as [f2 F2].
+  (* second pass, brackets *)
+  assert (P3 : Reads (fun f =>
+             match flat_args b2 ++ flat_args c2 ++ rest with
+             | t :: _ => if is_tc TBracketBegin t
+                         then read_arg_optional f (([] ++ map tree_arg b1) ++ map tree_arg c1)
+                                (-1 - Z.of_nat (length b1))%Z strict m
+                                (flat_args b2 ++ flat_args c2 ++ rest)
+                         else Ok ((([] ++ map tree_arg b1) ++ map tree_arg c1,
+                                   (-1 - Z.of_nat (length b1))%Z),
+                                  flat_args b2 ++ flat_args c2 ++ rest)
+             | [] => Ok ((([] ++ map tree_arg b1) ++ map tree_arg c1,
+                          (-1 - Z.of_nat (length b1))%Z),
+                         flat_args b2 ++ flat_args c2 ++ rest)
+             end)
+            (Ok (((([] ++ map tree_arg b1) ++ map tree_arg c1) ++ map tree_arg b2,
+                  (-1 - Z.of_nat (length b1) - Z.of_nat (length b2))%Z),
+                 flat_args c2 ++ rest))).
+  { destruct b2 as [|a b2'].
+    - rewrite (E23 eq_refl) in *. change (flat_args [] ++ flat_args [] ++ rest) with rest.
+      change (flat_args [] ++ rest) with rest. cbn [map length]. rewrite app_nil_r, Z.sub_0_r.
+      assert (H3 : head_notb TBracketBegin rest = true).
+      { apply andb_true_iff in Hfol. destruct Hfol as [_ Hf2].
+        destruct (nonempty c1); [exact Hf2 | apply stopsb_head; [discriminate | exact Hf2]]. }
+      exists 0%nat. intros f _. unfold head_notb in H3. destruct rest as [|t ts]; [reflexivity|].
+      apply negb_true_iff in H3. rewrite H3. reflexivity.
+    - assert (S3 : stopsb TBracketBegin (flat_args c2 ++ rest) = true).
+      { destruct c2 as [|a2 c2'].
+        - apply andb_true_iff in Hfol. exact (proj1 Hfol).
+        - cbn [forallb] in Wc2, Kc2.
+          apply andb_true_iff in Wc2. destruct Wc2 as [Wa _].
+          apply andb_true_iff in Kc2. destruct Kc2 as [Ka _].
+          destruct (run_head_after_spacer _ GBrace a2 c2' rest Wa Ka) as (o & Ho & Hob).
+          unfold stopsb. rewrite Ho.
+          rewrite (is_tc_excl _ TBracketBegin _ Hob); [reflexivity|discriminate]. }
+      destruct (opt_loop (a :: b2') Hb2 (([] ++ map tree_arg b1) ++ map tree_arg c1)
+                         (-1 - Z.of_nat (length b1))%Z strict m (flat_args c2 ++ rest)
+                         Hm (Neg3 _ _) Wb2 Kb2 (or_intror S3)) as [f3 F3].
+      cbn [forallb] in Wb2, Kb2.
+      apply andb_true_iff in Wb2. destruct Wb2 as [Wa _].
+      apply andb_true_iff in Kb2. destruct Kb2 as [Ka _].
+      cbn [head_no_spacer] in N2.
+      destruct (run_head_direct _ GBracket a b2' (flat_args c2 ++ rest) Wa Ka N2)
+        as (o & Y & EY & Hob).
+      exists f3. intros f Hf.
+      rewrite EY. rewrite Hob. rewrite <- EY. apply F3. exact Hf. }
+  (* second pass, braces *)
+  assert (P4 : Reads (fun f =>
+             match flat_args c2 ++ rest with
+             | t :: _ => if is_tc TGroupBegin t
+                         then read_arg_required f
+                                ((([] ++ map tree_arg b1) ++ map tree_arg c1) ++ map tree_arg b2)
+                                (-1 - Z.of_nat (length c1))%Z strict m (flat_args c2 ++ rest)
+                         else Ok (((([] ++ map tree_arg b1) ++ map tree_arg c1) ++ map tree_arg b2,
+                                   (-1 - Z.of_nat (length c1))%Z), flat_args c2 ++ rest)
+             | [] => Ok (((([] ++ map tree_arg b1) ++ map tree_arg c1) ++ map tree_arg b2,
+                          (-1 - Z.of_nat (length c1))%Z), flat_args c2 ++ rest)
+             end)
+            (Ok ((((([] ++ map tree_arg b1) ++ map tree_arg c1) ++ map tree_arg b2)
+                    ++ map tree_arg c2,
+                  (-1 - Z.of_nat (length c1) - Z.of_nat (length c2))%Z), rest))).
+  { destruct c2 as [|a c2'].
+    - change (flat_args [] ++ rest) with rest. cbn [map length]. rewrite app_nil_r, Z.sub_0_r.
+      assert (H4 : head_notb TGroupBegin rest = true).
+      { destruct b2 as [|a2 b2'].
+        - apply andb_true_iff in Hfol. apply stopsb_head; [discriminate | exact (proj1 Hfol)].
+        - apply andb_true_iff in Hfol. exact (proj2 Hfol). }
+      exists 0%nat. intros f _. unfold head_notb in H4. destruct rest as [|t ts]; [reflexivity|].
+      apply negb_true_iff in H4. rewrite H4. reflexivity.
+    - assert (S4 : stopsb TGroupBegin rest = true).
+      { destruct b2 as [|a2 b2']; [specialize (E23 eq_refl); discriminate E23 | exact Hfol]. }
+      destruct (req_loop (a :: c2') Hc2
+                         ((([] ++ map tree_arg b1) ++ map tree_arg c1) ++ map tree_arg b2)
+                         (-1 - Z.of_nat (length c1))%Z strict m rest
+                         Hm (Neg3 _ _) Wc2 Kc2 (or_intror (conj (Neg4 _ _) S4))) as [f4 F4].
+      cbn [forallb] in Wc2, Kc2.
+      apply andb_true_iff in Wc2. destruct Wc2 as [Wa _].
+      apply andb_true_iff in Kc2. destruct Kc2 as [Ka _].
+      cbn [head_no_spacer] in N3.
+      destruct (run_head_direct _ GBrace a c2' rest Wa Ka N3) as (o & Y & EY & Hob).
+      exists f4. intros f Hf. rewrite EY. rewrite Hob. rewrite <- EY. apply F4. exact Hf. }
+  destruct P3 as [f3 F3]. destruct P4 as [f4 F4].
+  exists (S (Nat.max (Nat.max f1 f2) (Nat.max f3 f4))). intros f Hf. destruct f as [|f]; [lia|].
+  rewrite C09_read_args_passes by reflexivity.
+  rewrite !flat_args_app, <- !app_assoc.
+  rewrite F1 by lia. cbn [bind]. rewrite F2 by lia. cbn [bind].
+  rewrite F3 by lia. cbn [bind]. rewrite F4 by lia. cbn [bind].
+  rewrite !map_app. cbn [app]. rewrite <- !app_assoc. reflexivity.
+Qed.
+
+(* read_args, fixed signature other than (0,0): at most `no` bracket groups,
+   exactly `nr` brace groups *)
+Lemma args_read_fixed nr no bs cs :
+  Forall PPa bs -> Forall PPa cs ->
+  forall strict m rest, mode_is_special m = false ->
+  (0 <= nr)%Z -> (0 <= no)%Z -> (nr =? 0)%Z && (no =? 0)%Z = false ->
+  forallb (wf_arg (mode_is_math m)) bs = true -> forallb is_bracket_arg bs = true ->
+  forallb (wf_arg (mode_is_math m)) cs = true -> forallb is_brace_arg cs = true ->
+  (Z.of_nat (length bs) <= no)%Z -> Z.of_nat (length cs) = nr ->
+  (Z.of_nat (length bs) =? no)%Z ||
+  (if (nr =? 0)%Z then stopsb TBracketBegin rest else head_notb TBracketBegin rest) = true ->
+  Reads (fun f => read_args f nr no strict m (flat_args (bs ++ cs) ++ rest))
+        (Ok (map tree_arg (bs ++ cs), rest)).
+Proof.
+  intros Hbs Hcs strict m rest Hm Hnr Hno Hnz Wb Kb Wc Kc Lb Lc Hfol.
+  assert (Full : (no - Z.of_nat (length bs) = 0)%Z \/
+                 (if (nr =? 0)%Z then stopsb TBracketBegin rest else head_notb TBracketBegin rest)
+                 = true).
+  { apply orb_true_iff in Hfol. destruct Hfol as [H|H]; [left; apply Z.eqb_eq in H; lia | right; exact H]. }
+  assert (S1 : (no - Z.of_nat (length bs) = 0)%Z \/
+               stopsb TBracketBegin (flat_args cs ++ rest) = true).
+  { destruct Full as [H|H]; [left; exact H|]. right.
+    destruct cs as [|a cs'].
+    - cbn [length] in Lc. subst nr. exact H.
+    - cbn [forallb] in Wc, Kc.
+      apply andb_true_iff in Wc. destruct Wc as [Wa _].
+      apply andb_true_iff in Kc. destruct Kc as [Ka _].
+      destruct (run_head_after_spacer _ GBrace a cs' rest Wa Ka) as (o & Ho & Hob).
+      unfold stopsb. rewrite Ho. rewrite (is_tc_excl _ TBracketBegin _ Hob); [reflexivity|discriminate]. }
+  destruct (opt_loop bs Hbs [] no strict m (flat_args cs ++ rest) Hm (or_intror Lb) Wb Kb S1)
+    as [f1 F1].
+  assert (Lc1 : (Z.of_nat (length cs) <= nr)%Z) by lia.
+  assert (Lc2 : (nr - Z.of_nat (length cs) = 0)%Z) by lia.
+  destruct (req_loop cs Hcs ([] ++ map tree_arg bs) nr strict m rest Hm
+                     (or_intror Lc1) Wc Kc (or_introl Lc2)) as [f2 F2].
+  exists (S (S (Nat.max f1 f2))). intros f Hf. destruct f as [|f]; [lia|].
+  rewrite C09_read_args_passes by exact Hnz.
+  rewrite flat_args_app, <- app_assoc.
+  rewrite F1 by lia. cbn [bind]. rewrite F2 by lia. cbn [bind].
+  destruct f as [|f]; [lia|].
+  (* second pass: the brace count is 0; the bracket count is 0 or no `[` follows *)
+  replace (nr - Z.of_nat (length cs))%Z with 0%Z by lia.
+  assert (P3 : match rest with
+               | t :: _ => if is_tc TBracketBegin t
+                           then read_arg_optional (S f) (([] ++ map tree_arg bs) ++ map tree_arg cs)
+                                  (no - Z.of_nat (length bs))%Z strict m rest
+                           else Ok ((([] ++ map tree_arg bs) ++ map tree_arg cs,
+                                     (no - Z.of_nat (length bs))%Z), rest)
+               | [] => Ok ((([] ++ map tree_arg bs) ++ map tree_arg cs,
+                            (no - Z.of_nat (length bs))%Z), rest)
+               end = Ok ((([] ++ map tree_arg bs) ++ map tree_arg cs,
+                          (no - Z.of_nat (length bs))%Z), rest)).
+  { destruct rest as [|t ts]; [reflexivity|].
+    destruct (is_tc TBracketBegin t) eqn:Et; [|reflexivity].
+    destruct Full as [H|H].
+    - rewrite H. apply opt_zero.
+    - exfalso. destruct (nr =? 0)%Z.
+      + apply stopsb_head in H; [|discriminate]. cbn [head_notb] in H. rewrite Et in H. discriminate H.
+      + cbn [head_notb] in H. rewrite Et in H. discriminate H. }
+  rewrite P3. cbn [bind].
+  assert (P4 : match rest with
+               | t :: _ => if is_tc TGroupBegin t
+                           then read_arg_required (S f) (([] ++ map tree_arg bs) ++ map tree_arg cs)
+                                  0 strict m rest
+                           else Ok ((([] ++ map tree_arg bs) ++ map tree_arg cs, 0%Z), rest)
+               | [] => Ok ((([] ++ map tree_arg bs) ++ map tree_arg cs, 0%Z), rest)
+               end = Ok ((([] ++ map tree_arg bs) ++ map tree_arg cs, 0%Z), rest)).
+  { destruct rest as [|t ts]; [reflexivity|].
+    destruct (is_tc TGroupBegin t); [apply req_zero | reflexivity]. }
+  rewrite P4. cbn [bind]. rewrite map_app. reflexivity.
+Qed.
+
+Lemma nonempty_false {A} (l : list A) : negb (nonempty l) = true -> l = [].
+Proof. destruct l; [reflexivity | discriminate]. Qed.
+
+Lemma forallb_kind_bracket l :
+  forallb (fun a => groupkind_beq (arg_kind a) GBracket) l = forallb is_bracket_arg l.
+Proof. reflexivity. Qed.
+Lemma forallb_kind_brace l :
+  forallb (fun a => groupkind_beq (arg_kind a) GBrace) l = forallb is_brace_arg l.
+Proof. reflexivity. Qed.
+
+Lemma head_not_kind_nil k k' (y : list arg) :
+  match y with a :: _ => groupkind_beq (arg_kind a) k = false | [] => True end ->
+  forall x z, take_kind k' y = (x, z) -> k' = k -> x = [] /\ z = y.
+Proof.
+  intros H x z E ->. rewrite (take_kind_stuck k y H) in E. inversion E; subst. auto.
+Qed.
+
+(* read_args for every admissible signature and argument list *)
+Lemma args_read sg args : Forall PPa args -> forall strict m rest,
+  mode_is_special m = false ->
+  cmd_shape sg args = true -> forallb (wf_arg (mode_is_math m)) args = true ->
+  cmd_follow sg args rest = true ->
+  Reads (fun f => read_args f (fst sg) (snd sg) strict m (flat_args args ++ rest))
+        (Ok (map tree_arg args, rest)).
+Proof.
+  intros Hargs strict m rest Hm Hshape Hwf Hfol.
+  unfold cmd_shape in Hshape. unfold cmd_follow, cmd_follow_b in Hfol.
+  destruct (is_free sg) eqn:Efree.
+  - (* free *)
+    unfold is_free in Efree. apply andb_true_iff in Efree. destruct Efree as [E1 E2].
+    apply Z.eqb_eq in E1, E2. destruct sg as [nr no]. cbn [fst snd] in *. subst nr no.
+    unfold split4 in Hshape, Hfol.
+    destruct (take_kind GBracket args) as [b1 r1] eqn:T1.
+    destruct (take_kind GBrace r1) as [c1 r2] eqn:T2.
+    destruct (take_kind GBracket r2) as [b2 r3] eqn:T3.
+    destruct (take_kind GBrace r3) as [c2 r4] eqn:T4.
+    apply andb_true_iff in Hshape. destruct Hshape as [Hshape N3].
+    apply andb_true_iff in Hshape. destruct Hshape as [N0 N2].
+    apply nonempty_false in N0. subst r4.
+    destruct (take_kind_spec _ _ _ _ T1) as (A1 & K1 & Y1).
+    destruct (take_kind_spec _ _ _ _ T2) as (A2 & K2 & Y2).
+    destruct (take_kind_spec _ _ _ _ T3) as (A3 & K3 & Y3).
+    destruct (take_kind_spec _ _ _ _ T4) as (A4 & K4 & _).
+    rewrite app_nil_r in A4. subst r3. subst r2. subst r1. subst args.
+    rewrite !forallb_app in Hwf.
+    apply andb_true_iff in Hwf. destruct Hwf as [Wb1 Hwf].
+    apply andb_true_iff in Hwf. destruct Hwf as [Wc1 Hwf].
+    apply andb_true_iff in Hwf. destruct Hwf as [Wb2 Wc2].
+    apply Forall_app in Hargs. destruct Hargs as [Hb1 Hargs].
+    apply Forall_app in Hargs. destruct Hargs as [Hc1 Hargs].
+    apply Forall_app in Hargs. destruct Hargs as [Hb2 Hc2].
+    apply (args_read_free b1 c1 b2 c2 Hb1 Hc1 Hb2 Hc2 strict m rest Hm
+             Wb1 K1 Wc1 K2 Wb2 K3 Wc2 K4); try assumption.
+    + (* c1 = [] -> b2 = [] *)
+      intro Ec. subst c1. cbn [app] in T2, T3.
+      assert (Y1' : match b2 ++ c2 with
+                    | a :: _ => groupkind_beq (arg_kind a) GBracket = false | [] => True end).
+      { exact Y1. }
+      rewrite (take_kind_stuck GBracket (b2 ++ c2) Y1') in T3. inversion T3. reflexivity.
+    + (* b2 = [] -> c2 = [] *)
+      intro Eb. subst b2. cbn [app] in T3, T4, Y2.
+      rewrite (take_kind_stuck GBrace c2 Y2) in T4. inversion T4. reflexivity.
+  - (* fixed *)
+    apply andb_true_iff in Hshape. destruct Hshape as [Hshape Hsh].
+    apply andb_true_iff in Hshape. destruct Hshape as [Hnr Hno].
+    apply Z.leb_le in Hnr, Hno.
+    destruct sg as [nr no]. cbn [fst snd] in *. unfold is_zero in *. cbn [fst snd] in *.
+    destruct ((nr =? 0)%Z && (no =? 0)%Z) eqn:Ez.
+    + apply nonempty_false in Hsh. subst args.
+      apply andb_true_iff in Ez. destruct Ez as [Z1 Z2]. apply Z.eqb_eq in Z1, Z2. subst.
+      exists 1%nat. intros f Hf. destruct f as [|f]; [lia|]. reflexivity.
+    + destruct (take_kind GBracket args) as [bs r1] eqn:T1.
+      destruct (take_kind GBrace r1) as [cs r2] eqn:T2.
+      apply andb_true_iff in Hsh. destruct Hsh as [Hsh L2].
+      apply andb_true_iff in Hsh. destruct Hsh as [N0 L1].
+      apply nonempty_false in N0. subst r2.
+      apply Z.leb_le in L1. apply Z.eqb_eq in L2.
+      destruct (take_kind_spec _ _ _ _ T1) as (A1 & K1 & _).
+      destruct (take_kind_spec _ _ _ _ T2) as (A2 & K2 & _).
+      rewrite app_nil_r in A2. subst r1. subst args.
+      rewrite forallb_app in Hwf. apply andb_true_iff in Hwf. destruct Hwf as [Wb Wc].
+      apply Forall_app in Hargs. destruct Hargs as [Hbs Hcs].
+      apply (args_read_fixed nr no bs cs Hbs Hcs strict m rest Hm Hnr Hno Ez Wb K1 Wc K2 L1 L2).
+      exact Hfol.
+Qed.
+
+(* ------------------------------------------------------- the command *)
+
+Lemma name_ok_parts n :
+  name_ok n = true ->
+  str_eqb (ttext n) s_item = false /\
+  str_eqb (ttext n) s_begin = false /\ str_eqb (ttext n) s_end = false /\
+  mem_str (ttext n) Tables.special_commands = false.
+Proof.
+  unfold name_ok. intro H.
+  apply andb_true_iff in H. destruct H as [H H5].
+  apply andb_true_iff in H. destruct H as [H H4].
+  apply andb_true_iff in H. destruct H as [H2 H3].
+  apply negb_true_iff in H2, H3, H4, H5. auto.
+Qed.
+
+Lemma read_command_plain f strict m n src :
+  mem_str (ttext n) Tables.special_commands = false ->
+  read_command (S f) (-1) (-1) 0 strict m (n :: src) =
+  bind (read_args f (fst (signature_of (ttext n))) (snd (signature_of (ttext n))) strict m src)
+       (fun '(args, src1) => Ok ((ttext n, args), src1)).
+Proof.
+  intros Hm. simpl. change (skipn 0 (n :: src)) with (n :: src). cbv iota beta.
+  rewrite Hm. destruct (signature_of (ttext n)) as [a b]. reflexivity.
+Qed.
+
+(* the command part of a plain-named command: the name and all of its
+   arguments; used for \name, \begin, \end and \item alike *)
+Lemma cmd_head_read n args : Forall PPa args -> forall strict m rest,
+  mode_is_special m = false ->
+  mem_str (ttext n) Tables.special_commands = false ->
+  cmd_shape (signature_of (ttext n)) args = true ->
+  forallb (wf_arg (mode_is_math m)) args = true ->
+  cmd_follow (signature_of (ttext n)) args rest = true ->
+  Reads (fun f => read_command f (-1) (-1) 0 strict m (n :: flat_args args ++ rest))
+        (Ok ((ttext n, map tree_arg args), rest)).
+Proof.
+  intros Hargs strict m rest Hm Hsp Hshape Hwf Hfol.
+  destruct (args_read _ args Hargs strict m rest Hm Hshape Hwf Hfol) as [f1 F1].
+  exists (S f1). intros f Hf. destruct f as [|f]; [lia|].
+  rewrite (read_command_plain f strict m n _ Hsp), F1 by lia. reflexivity.
+Qed.
+
+Lemma read_expr_plain_cmd f skip strict m e n src args src1 :
+  is_tc TEscape e = true -> name_ok n = true ->
+  read_command f (-1) (-1) 0 strict m (n :: src) = Ok ((ttext n, args), src1) ->
+  read_expr (S f) skip strict m (e :: n :: src) =
+  Ok (ECmd (strip (ttext n)) args [] (tpos e), src1).
+Proof.
+  intros He Hn Ha. destruct (name_ok_parts n Hn) as (Hi & Hb & _ & Hm).
+  cbn [read_expr]. rewrite (escape_not_math_begin e He), He, Ha. cbn [bind].
+  rewrite Hi, Hb. reflexivity.
+Qed.
+
+(* ------------------------------------------------------- environments *)
+
+(* read_command with one token to skip is read_command on the tail *)
+Lemma read_command_skip1 f nreq nopt strict m e src :
+  read_command f nreq nopt 1 strict m (e :: src) = read_command f nreq nopt 0 strict m src.
+Proof.
+  destruct f as [|f]; [reflexivity|]. cbn [read_command].
+  change (skipn 1 (e :: src)) with src. change (skipn 0 src) with src.
+  assert (H1 : (length (e :: src) <? 1)%nat = false) by (apply Nat.ltb_ge; simpl; lia).
+  assert (H2 : (length src <? 0)%nat = false) by (apply Nat.ltb_ge; lia).
+  rewrite H1, H2. reflexivity.
+Qed.
+
+(* "a peek returns what the real read returns": if read_expr succeeds on an
+   escape, the look-ahead of read_env / read_item on the same tokens succeeds
+   and reports the token after the escape as the command name *)
+Lemma peek_of_read_expr f skip strict m e n src r :
+  is_tc TEscape e = true ->
+  read_expr (S f) skip strict m (e :: n :: src) = Ok r ->
+  exists args src1,
+    read_command f (-1) (-1) 1 strict m (e :: n :: src) = Ok ((ttext n, args), src1).
+Proof.
+  intros He H. cbn [read_expr] in H. rewrite (escape_not_math_begin e He), He in H.
+  apply bind_ok in H. destruct H as ([[name args] src1] & Hc & _).
+  pose proof (read_command_name _ _ _ _ _ _ _ _ _ _ Hc) as Hn. subst name.
+  exists args, src1. rewrite read_command_skip1. exact Hc.
+Qed.
+
+
+(* an element that starts with an escape is a command, an environment or an
+   item: its second token is the name; the name is not `end`, and it is
+   `item` exactly for items *)
+Lemma escape_head_shape mm d :
+  wf mm d = true -> is_tc TEscape (dhead d) = true ->
+  exists n tl, flat d = dhead d :: n :: tl /\ str_eqb (ttext n) s_end = false /\
+               str_eqb (ttext n) s_item = is_item d.
+Proof.
+  destruct d as [t|o b c|e n args|k o b c|e b ng xargs body e2 en ng2|e n args body];
+    intros Hwf He; cbn [dhead] in He.
+  - exfalso. cbn [wf] in Hwf. apply is_tc_true in He. rewrite He in Hwf. discriminate Hwf.
+  - exfalso. rewrite wf_group in Hwf.
+    apply andb_true_iff in Hwf. destruct Hwf as [Hwf _].
+    apply andb_true_iff in Hwf. destruct Hwf as [H1 _].
+    rewrite (is_tc_excl _ TEscape _ H1) in He; discriminate.
+  - rewrite wf_cmd in Hwf.
+    apply andb_true_iff in Hwf. destruct Hwf as [Hwf _].
+    apply andb_true_iff in Hwf. destruct Hwf as [Hwf _].
+    apply andb_true_iff in Hwf. destruct Hwf as [_ H2].
+    destruct (name_ok_parts n H2) as (Hitem & _ & Hend & _).
+    exists n, (flat_args args). split; [reflexivity | split; [exact Hend | exact Hitem]].
+  - exfalso. rewrite wf_math in Hwf.
+    apply andb_true_iff in Hwf. destruct Hwf as [Hwf _].
+    apply andb_true_iff in Hwf. destruct Hwf as [H1 _].
+    apply opens_math_kind_spec in H1. destruct H1 as [H1 _].
+    rewrite (escape_not_math_begin o He) in H1. discriminate H1.
+  - rewrite wf_env in Hwf.
+    do 13 (apply andb_true_iff in Hwf; destruct Hwf as [Hwf _]).
+    apply andb_true_iff in Hwf. destruct Hwf as [_ Hb]. apply str_eqb_eq in Hb.
+    exists b, (flat_args (ng :: xargs) ++ flat_list body ++ e2 :: en :: flat_arg ng2).
+    split; [reflexivity|]. rewrite Hb. split; reflexivity.
+  - rewrite wf_item in Hwf.
+    do 2 (apply andb_true_iff in Hwf; destruct Hwf as [Hwf _]).
+    apply andb_true_iff in Hwf. destruct Hwf as [_ Hn]. apply str_eqb_eq in Hn.
+    exists n, (flat_args args ++ flat_list body).
+    split; [reflexivity|]. rewrite Hn. split; reflexivity.
+Qed.
+
+Lemma item_not_math mm d : wf mm d = true -> is_item d = true -> mm = false.
+Proof.
+  destruct d; try discriminate. rewrite wf_item. intros Hwf _.
+  do 4 (apply andb_true_iff in Hwf; destruct Hwf as [Hwf _]).
+  apply negb_true_iff in Hwf. exact Hwf.
+Qed.
+
+Lemma elem_peek_ok mm d R :
+  wf mm d = true -> (mm = false -> head_peek R) -> peek_ok d R.
+Proof.
+  intros Hwf H. unfold peek_ok. destruct (is_item d) eqn:E; [|exact I].
+  apply H. apply (item_not_math mm d Hwf E).
+Qed.
+
+(* the look-ahead succeeds in front of every element of a well-formed
+   non-math sequence, given that it succeeds in front of what follows it *)
+Lemma seq_head_peek ds : Forall PPd ds -> forall x tail,
+  wf_seq false x ds tail = true -> head_peek tail -> head_peek (flat_list ds ++ tail).
+Proof.
+  induction 1 as [|d ds Hd Hds IH]; intros x tail Hwf Ht; [exact Ht|].
+  destruct (wf_seq_cons_parts _ _ _ _ _ Hwf) as (_ & _ & H2 & H3 & H4).
+  specialize (IH x tail H4 Ht).
+  intros e src E He. rewrite flat_list_cons, <- app_assoc in E |- *.
+  assert (Ed : dhead d = e).
+  { destruct (flat_head d) as [tl Htl]. rewrite Htl in E. inversion E. reflexivity. }
+  subst e.
+  destruct (escape_head_shape _ d H2 He) as (n & tl & Htl & _).
+  destruct (Hd [] true MNonMath (flat_list ds ++ tail) eq_refl sub_skip_nil H2 H3
+               (elem_peek_ok false d _ H2 (fun _ => IH))) as [f1 F1].
+  assert (E1 := F1 (S f1) ltac:(lia)). cbv beta in E1.
+  rewrite Htl in E1 |- *. rewrite <- !app_comm_cons in E1 |- *.
+  destruct (peek_of_read_expr f1 [] true MNonMath (dhead d) n _ _ He E1) as (pa & ps & Hp).
+  exists ((ttext n, pa), ps). exists f1. intros f Hf.
+  apply (enough_fuel_command f1 f); [exact Hp | discriminate | exact Hf].
+Qed.
+
+(* reading one element of a sequence *)
+Lemma seq_elem d ds x tail skip strict m :
+  PPd d -> Forall PPd ds -> mode_is_special m = false -> sub_skip SK skip ->
+  wf_seq (mode_is_math m) x (d :: ds) tail = true ->
+  (mode_is_math m = false -> head_peek tail) ->
+  Reads (fun f => read_expr f skip strict m (flat d ++ flat_list ds ++ tail))
+        (Ok (tree d, flat_list ds ++ tail)).
+Proof.
+  intros Hd Hds Hm Hsk Hwf Ht.
+  destruct (wf_seq_cons_parts _ _ _ _ _ Hwf) as (_ & _ & H2 & H3 & H4).
+  apply (Hd skip strict m _ Hm Hsk H2 H3).
+  apply (elem_peek_ok _ d _ H2). intro Hmm. rewrite Hmm in H4.
+  exact (seq_head_peek ds Hds x tail H4 (Ht Hmm)).
+Qed.
+
+Lemma head_peek_nonescape c rest : is_tc TEscape c = false -> head_peek (c :: rest).
+Proof. intros H e src E He. inversion E; subst. congruence. Qed.
+
+Lemma head_peek_nil : head_peek [].
+Proof. intros e src E. discriminate E. Qed.
+
+(* the body of a group: elements one by one, then the closer *)
+Lemma seq_group ds : Forall PPd ds -> forall k pos strict m acc c rest,
+  mode_is_special m = false ->
+  wf_seq (mode_is_math m) (CGroup k) ds (c :: rest) = true -> is_group_end k c = true ->
+  Reads (fun f => read_arg_loop f k pos strict m acc (flat_list ds ++ c :: rest))
+        (Ok (EGroup k (acc ++ map tree ds) pos, rest)).
+Proof.
+  induction 1 as [|d ds Hd Hds IH]; intros k pos strict m acc c rest Hm Hwf Hc.
+  - exists 1%nat. intros f Hf. destruct f as [|f]; [lia|].
+    change (flat_list [] ++ c :: rest) with (c :: rest). simpl map. rewrite app_nil_r.
+    apply C09_group_closes_on_own_delimiter. exact Hc.
+  - destruct (wf_seq_cons_parts _ _ _ _ _ Hwf) as (H1 & _ & _ & _ & H4).
+    cbn [closes] in H1.
+    destruct (flat_head d) as [tl Htl].
+    destruct (seq_elem d ds _ _ [] strict m Hd Hds Hm sub_skip_nil Hwf
+                (fun _ => head_peek_nonescape c rest (group_end_not_escape k c Hc)))
+      as [f1 F1].
+    destruct (IH k pos strict m (acc ++ [tree d]) c rest Hm H4 Hc) as [f2 F2].
+    exists (S (Nat.max f1 f2)). intros f Hf. destruct f as [|f]; [lia|].
+    rewrite flat_list_cons, <- app_assoc.
+    assert (E1 := F1 f ltac:(lia)). cbv beta in E1.
+    rewrite Htl in E1 |- *. rewrite <- app_comm_cons in E1 |- *.
+    rewrite (C09_group_continues f k pos strict m acc (dhead d) _ H1), E1. cbn [bind].
+    rewrite F2 by lia. rewrite <- app_assoc. reflexivity.
+Qed.
+
+(* the body of a math region *)
+Lemma seq_math ds : Forall PPd ds -> forall k pos strict acc c rest,
+  wf_seq true (CMath k) ds (c :: rest) = true -> is_math_end k c = true ->
+  Reads (fun f => read_math_loop f k pos strict acc (flat_list ds ++ c :: rest))
+        (Ok (EMath k (acc ++ map tree ds) pos, rest)).
+Proof.
+  induction 1 as [|d ds Hd Hds IH]; intros k pos strict acc c rest Hwf Hc.
+  - exists 1%nat. intros f Hf. destruct f as [|f]; [lia|].
+    change (flat_list [] ++ c :: rest) with (c :: rest). simpl map. rewrite app_nil_r.
+    apply C12_math_closes. exact Hc.
+  - destruct (wf_seq_cons_parts _ _ _ _ _ Hwf) as (H1 & _ & _ & _ & H4).
+    cbn [closes] in H1.
+    destruct (flat_head d) as [tl Htl].
+    destruct (seq_elem d ds (CMath k) (c :: rest) [] strict MMath Hd Hds eq_refl sub_skip_nil Hwf
+                (fun (E : true = false) => match Bool.diff_true_false E with end))
+      as [f1 F1].
+    destruct (IH k pos strict (acc ++ [tree d]) c rest H4 Hc) as [f2 F2].
+    exists (S (Nat.max f1 f2)). intros f Hf. destruct f as [|f]; [lia|].
+    rewrite flat_list_cons, <- app_assoc.
+    assert (E1 := F1 f ltac:(lia)). cbv beta in E1.
+    rewrite Htl in E1 |- *. rewrite <- app_comm_cons in E1 |- *.
+    rewrite (C12_math_continues f k pos strict acc (dhead d) _ H1), E1. cbn [bind].
+    rewrite F2 by lia. rewrite <- app_assoc. reflexivity.
+Qed.
+
+(* one argument group, from its opening token *)
+Lemma arg_group sp k o b c : Forall PPd b -> PPa (Arg sp k o b c).
+Proof.
+  intros Hb strict m rest Hm Hwf.
+  destruct (wf_arg_parts _ _ _ _ _ _ Hwf) as (H1 & H2 & H3 & H4).
+  apply opens_group_kind_spec in H2. destruct H2 as (Hk & _).
+  pose proof (wf_seq_ext _ (CGroup k) b c [] rest (ext_ok_group_end k c H3) H4) as H4'.
+  destruct (seq_group b Hb k (tpos o) strict m [] c rest Hm H4' H3) as [f1 F1].
+  exists (S f1). intros f Hf. destruct f as [|f]; [lia|].
+  cbn [arg_open arg_inner tree_arg]. rewrite <- app_assoc. cbn [app].
+  cbn [read_arg]. rewrite Hk. apply F1. lia.
+Qed.
+
+(* one layer of the environment loop *)
+Lemma env_loop_step_other f name args pos skip strict m acc t l :
+  is_tc TEscape t = false ->
+  read_env_loop (S f) name args pos skip strict m acc (t :: l) =
+  bind (read_expr f skip strict m (t :: l)) (fun '(e, src1) =>
+    read_env_loop f name args pos skip strict m (acc ++ [e]) src1).
+Proof. intro H. simpl. rewrite H. reflexivity. Qed.
+
+Lemma env_loop_step_esc f name args pos skip strict m acc t l cname cargs crest :
+  is_tc TEscape t = true ->
+  read_command f (-1) (-1) 1 strict m (t :: l) = Ok ((cname, cargs), crest) ->
+  str_eqb cname s_end = false ->
+  read_env_loop (S f) name args pos skip strict m acc (t :: l) =
+  bind (read_expr f skip strict m (t :: l)) (fun '(e, src1) =>
+    read_env_loop f name args pos skip strict m (acc ++ [e]) src1).
+Proof. intros H Hc Hn. simpl. rewrite H, Hc. cbn [bind]. rewrite Hn. reflexivity. Qed.
+
+Lemma env_loop_end f name args pos skip strict m acc t l cname a0 cargs crest c src3 g rest :
+  is_tc TEscape t = true ->
+  read_command f (-1) (-1) 1 strict m (t :: l) = Ok ((cname, a0 :: cargs), crest) ->
+  str_eqb cname s_end = true -> str_eqb (arg_string a0) name = true ->
+  snd (read_spacer (skipn 2 (t :: l))) = c :: src3 ->
+  read_arg f c strict m src3 = Ok (g, rest) ->
+  read_env_loop (S f) name args pos skip strict m acc (t :: l) =
+  Ok (ENamed name args acc pos, rest).
+Proof.
+  intros H Hc Hn Ha Hs Hg. simpl. rewrite H, Hc. cbn [bind]. rewrite Hn, Ha. cbn [negb].
+  destruct (read_spacer (skipn 2 (t :: l))) as [b0 src2]. cbn [snd] in Hs. subst src2.
+  rewrite Hg. reflexivity.
+Qed.
+
+Lemma end_facts en :
+  str_eqb (ttext en) s_end = true ->
+  signature_of (ttext en) = free_sig /\
+  mem_str (ttext en) Tables.special_commands = false.
+Proof. intro H. apply str_eqb_eq in H. rewrite H. split; vm_compute; reflexivity. Qed.
+
+Lemma begin_facts b :
+  str_eqb (ttext b) s_begin = true ->
+  signature_of (ttext b) = free_sig /\
+  mem_str (ttext b) Tables.special_commands = false /\ ttext b = s_begin.
+Proof.
+  intro H. apply str_eqb_eq in H. rewrite H. repeat split; vm_compute; reflexivity.
+Qed.
+
+(* \begin <name group> hands over to the environment loop *)
+Lemma read_expr_begin f skip strict m e b src a0 args' src1 :
+  is_tc TEscape e = true -> mode_is_special m = false ->
+  read_command f (-1) (-1) 0 strict m (b :: src) = Ok ((s_begin, a0 :: args'), src1) ->
+  mem_str (strip (arg_string a0)) Tables.math_env_names = false ->
+  mem_str (strip (arg_string a0)) skip = false ->
+  read_expr (S f) skip strict m (e :: b :: src) =
+  read_env_loop f (strip (arg_string a0)) args' (tpos e) skip strict m [] src1.
+Proof.
+  intros He Hm Hc Hmath Hskip. cbn [read_expr].
+  rewrite (escape_not_math_begin e He), He, Hc. cbn [bind].
+  replace (str_eqb s_begin s_item) with false by (vm_compute; reflexivity).
+  replace (str_eqb s_begin s_begin) with true by (vm_compute; reflexivity).
+  rewrite Hm. cbn [negb andb]. rewrite Hmath, Hskip. reflexivity.
+Qed.
+
+
+(* the look-ahead in front of  \end <name group>  succeeds (any mode in which
+   the name group is well-formed, any tolerance) *)
+Lemma end_peek_reads en ng2 strict m rest :
+  PPa ng2 -> mode_is_special m = false ->
+  str_eqb (ttext en) s_end = true ->
+  wf_arg (mode_is_math m) ng2 = true -> is_brace_arg ng2 = true ->
+  cmd_follow free_sig [ng2] rest = true ->
+  forall e2,
+  Reads (fun f => read_command f (-1) (-1) 1 strict m (e2 :: en :: flat_arg ng2 ++ rest))
+        (Ok ((ttext en, [tree_arg ng2]), rest)).
+Proof.
+  intros Hng2 Hm Hen Wng2 Kng2 Hfol e2.
+  destruct (end_facts en Hen) as [Hsig Hsp].
+  assert (Wc : forallb (wf_arg (mode_is_math m)) [ng2] = true)
+    by (cbn [forallb]; rewrite Wng2; reflexivity).
+  assert (Hsh : cmd_shape free_sig [ng2] = true).
+  { unfold is_brace_arg in Kng2. apply groupkind_eqb_eq in Kng2.
+    destruct ng2 as [sp k o b c]. cbn [arg_kind] in Kng2. subst k. reflexivity. }
+  rewrite <- Hsig in Hsh, Hfol.
+  destruct (cmd_head_read en [ng2] (Forall_cons _ Hng2 (Forall_nil _))
+              strict m rest Hm Hsp Hsh Wc Hfol) as [f1 F1].
+  exists f1. intros f Hf. rewrite read_command_skip1.
+  assert (E := F1 f Hf). cbv beta in E.
+  unfold flat_args in E. cbn [app map concat] in E. rewrite app_nil_r in E. exact E.
+Qed.
+
+(* the body of an environment: elements one by one (each escape is peeked
+   at first), then  \end <name group> *)
+Lemma seq_env ds : Forall PPd ds ->
+  forall name args pos skip strict m acc e2 en ng2 rest,
+  mode_is_special m = false -> sub_skip SK skip ->
+  wf_seq (mode_is_math m) CEnv ds (e2 :: en :: flat_arg ng2 ++ rest) = true ->
+  PPa ng2 ->
+  is_tc TEscape e2 = true -> str_eqb (ttext en) s_end = true ->
+  wf_arg (mode_is_math m) ng2 = true -> is_brace_arg ng2 = true ->
+  str_eqb (arg_string (tree_arg ng2)) name = true -> cmd_follow free_sig [ng2] rest = true ->
+  Reads (fun f => read_env_loop f name args pos skip strict m acc
+                    (flat_list ds ++ e2 :: en :: flat_arg ng2 ++ rest))
+        (Ok (ENamed name args (acc ++ map tree ds) pos, rest)).
+Proof.
+  induction 1 as [|d ds Hd Hds IH];
+    intros name args pos skip strict m acc e2 en ng2 rest Hm Hsk Hwf Hng2 He2 Hen Wng2 Kng2 Hnm Hfol.
+  - (* \end{name} *)
+    destruct (end_peek_reads en ng2 strict m rest Hng2 Hm Hen Wng2 Kng2 Hfol e2) as [f1 F1].
+    destruct ng2 as [sp k o b c].
+    destruct (wf_arg_parts _ _ _ _ _ _ Wng2) as (W1 & W2 & W3 & W4).
+    apply opens_group_kind_spec in W2. destruct W2 as (_ & _ & Ho & _).
+    destruct (Hng2 strict m rest Hm Wng2) as [f2 F2].
+    exists (S (Nat.max f1 f2)). intros f Hf. destruct f as [|f]; [lia|].
+    change (flat_list [] ++ e2 :: en :: flat_arg (Arg sp k o b c) ++ rest)
+      with (e2 :: en :: flat_arg (Arg sp k o b c) ++ rest).
+    simpl map. rewrite app_nil_r.
+    apply (env_loop_end f name args pos skip strict m acc e2 _ (ttext en)
+             (tree_arg (Arg sp k o b c)) [] rest o
+             (arg_inner (Arg sp k o b c) ++ rest) (tree_arg (Arg sp k o b c)) rest He2).
+    + apply (F1 f). lia.
+    + exact Hen.
+    + exact Hnm.
+    + change (skipn 2 (e2 :: en :: flat_arg (Arg sp k o b c) ++ rest))
+        with (flat_arg (Arg sp k o b c) ++ rest).
+      apply arg_after_spacer; assumption.
+    + apply (F2 f). lia.
+  - destruct (wf_seq_cons_parts _ _ _ _ _ Hwf) as (_ & _ & H2 & _ & H4).
+    set (tail := e2 :: en :: flat_arg ng2 ++ rest) in *.
+    assert (Htail : mode_is_math m = false -> head_peek tail).
+    { intros Hmm e src E He.
+      destruct (end_peek_reads en ng2 true MNonMath rest Hng2 eq_refl Hen) with (e2 := e2)
+        as [f0 F0]; try assumption.
+      - cbn [mode_is_math]. rewrite <- Hmm. exact Wng2.
+      - eexists. exists f0. exact F0. }
+    destruct (seq_elem d ds CEnv tail skip strict m Hd Hds Hm Hsk Hwf Htail) as [f1 F1].
+    destruct (IH name args pos skip strict m (acc ++ [tree d]) e2 en ng2 rest
+                 Hm Hsk H4 Hng2 He2 Hen Wng2 Kng2 Hnm Hfol) as [f2 F2].
+    fold tail in F2.
+    exists (S (S (Nat.max f1 f2))). intros f Hf. destruct f as [|f]; [lia|].
+    rewrite flat_list_cons, <- app_assoc.
+    assert (E1 := F1 f ltac:(lia)). cbv beta in E1.
+    destruct (is_tc TEscape (dhead d)) eqn:Ee.
+    + destruct (escape_head_shape _ d H2 Ee) as (n & tl & Htl & Hnend & _).
+      rewrite Htl in E1 |- *. rewrite <- !app_comm_cons in E1 |- *.
+      destruct f as [|f]; [lia|].
+      destruct (peek_of_read_expr f skip strict m (dhead d) n _ _ Ee E1) as (pa & ps & Hp).
+      assert (Hp' : read_command (S f) (-1) (-1) 1 strict m (dhead d :: n :: tl ++ flat_list ds ++ tail)
+                    = Ok ((ttext n, pa), ps)).
+      { apply (enough_fuel_command f (S f)); [exact Hp | discriminate | lia]. }
+      rewrite (env_loop_step_esc (S f) name args pos skip strict m acc (dhead d) _ _ _ _
+                 Ee Hp' Hnend).
+      rewrite E1. cbn [bind]. rewrite F2 by lia. rewrite <- app_assoc. reflexivity.
+    + destruct (flat_head d) as [tl Htl].
+      rewrite Htl in E1 |- *. rewrite <- !app_comm_cons in E1 |- *.
+      rewrite (env_loop_step_other f name args pos skip strict m acc (dhead d) _ Ee).
+      rewrite E1. cbn [bind]. rewrite F2 by lia. rewrite <- app_assoc. reflexivity.
+Qed.
+
+(* ------------------------------------------------------------- items *)
+
+(* one layer of the item loop *)
+Lemma item_loop_stop_esc f acc t l cname cargs crest :
+  is_tc TEscape t = true ->
+  read_command f (-1) (-1) 1 true MNonMath (t :: l) = Ok ((cname, cargs), crest) ->
+  str_eqb cname s_end || str_eqb cname s_item = true ->
+  read_item_loop (S f) acc (t :: l) = Ok (acc, t :: l).
+Proof. intros H Hc Hn. simpl. rewrite H, Hc. cbn [bind]. rewrite Hn. reflexivity. Qed.
+
+Lemma item_loop_stop_brace f acc t l :
+  is_tc TEscape t = false -> is_tc TGroupEnd t = true ->
+  read_item_loop (S f) acc (t :: l) = Ok (acc, t :: l).
+Proof. intros H Hc. simpl. rewrite H, Hc. reflexivity. Qed.
+
+Lemma item_loop_step_esc f acc t l cname cargs crest :
+  is_tc TEscape t = true ->
+  read_command f (-1) (-1) 1 true MNonMath (t :: l) = Ok ((cname, cargs), crest) ->
+  str_eqb cname s_end || str_eqb cname s_item = false ->
+  read_item_loop (S f) acc (t :: l) =
+  bind (read_expr f [] true MNonMath (t :: l)) (fun '(e, src1) =>
+    read_item_loop f (acc ++ [e]) src1).
+Proof. intros H Hc Hn. simpl. rewrite H, Hc. cbn [bind]. rewrite Hn. reflexivity. Qed.
+
+Lemma item_loop_step_other f acc t l :
+  is_tc TEscape t = false -> is_tc TGroupEnd t = false ->
+  read_item_loop (S f) acc (t :: l) =
+  bind (read_expr f [] true MNonMath (t :: l)) (fun '(e, src1) =>
+    read_item_loop f (acc ++ [e]) src1).
+Proof. intros H Hc. simpl. rewrite H, Hc. reflexivity. Qed.
+
+(* the body of an item: elements one by one - always read strictly, in
+   non-math mode, without skip list - up to where the item stops *)
+Lemma seq_item ds : Forall PPd ds -> forall acc R,
+  wf_seq false CItem ds R = true -> item_stop_b R = true -> head_peek R ->
+  Reads (fun f => read_item_loop f acc (flat_list ds ++ R)) (Ok (acc ++ map tree ds, R)).
+Proof.
+  induction 1 as [|d ds Hd Hds IH]; intros acc R Hwf Hstop Hpk.
+  - change (flat_list [] ++ R) with R. simpl map. rewrite app_nil_r.
+    destruct R as [|t tl].
+    { exists 1%nat. intros f Hf. destruct f as [|f]; [lia|]. reflexivity. }
+    cbn [item_stop_b] in Hstop. destruct (is_tc TEscape t) eqn:Et.
+    + destruct tl as [|n tl']; [discriminate Hstop|].
+      destruct (Hpk t (n :: tl') eq_refl Et) as ([[cname cargs] crest] & f1 & F1).
+      exists (S f1). intros f Hf. destruct f as [|f]; [lia|].
+      assert (E := F1 f ltac:(lia)). cbv beta in E.
+      assert (Hn : cname = ttext n).
+      { rewrite read_command_skip1 in E.
+        exact (read_command_name _ _ _ _ _ _ _ _ _ _ E). }
+      subst cname.
+      apply (item_loop_stop_esc f acc t _ _ _ _ Et E Hstop).
+    + exists 1%nat. intros f Hf. destruct f as [|f]; [lia|].
+      apply item_loop_stop_brace; assumption.
+  - destruct (wf_seq_cons_parts _ _ _ _ _ Hwf) as (H1 & Hal & H2 & _ & H4).
+    cbn [closes] in H1. cbn [allowed] in Hal. apply negb_true_iff in Hal.
+    destruct (seq_elem d ds CItem R [] true MNonMath Hd Hds eq_refl sub_skip_nil Hwf
+                (fun _ => Hpk)) as [f1 F1].
+    destruct (IH (acc ++ [tree d]) R H4 Hstop Hpk) as [f2 F2].
+    exists (S (S (Nat.max f1 f2))). intros f Hf. destruct f as [|f]; [lia|].
+    rewrite flat_list_cons, <- app_assoc.
+    assert (E1 := F1 f ltac:(lia)). cbv beta in E1.
+    destruct (is_tc TEscape (dhead d)) eqn:Ee.
+    + destruct (escape_head_shape _ d H2 Ee) as (n & tl & Htl & Hnend & Hnitem).
+      rewrite Hal in Hnitem.
+      rewrite Htl in E1 |- *. rewrite <- !app_comm_cons in E1 |- *.
+      destruct f as [|f]; [lia|].
+      destruct (peek_of_read_expr f [] true MNonMath (dhead d) n _ _ Ee E1) as (pa & ps & Hp).
+      assert (Hp' : read_command (S f) (-1) (-1) 1 true MNonMath
+                                 (dhead d :: n :: tl ++ flat_list ds ++ R)
+                    = Ok ((ttext n, pa), ps)).
+      { apply (enough_fuel_command f (S f)); [exact Hp | discriminate | lia]. }
+      rewrite (item_loop_step_esc (S f) acc (dhead d) _ _ _ _ Ee Hp').
+      2:{ rewrite Hnend, Hnitem. reflexivity. }
+      rewrite E1. cbn [bind]. rewrite F2 by lia. rewrite <- app_assoc. reflexivity.
+    + destruct (flat_head d) as [tl Htl].
+      rewrite Htl in E1 |- *. rewrite <- !app_comm_cons in E1 |- *.
+      rewrite (item_loop_step_other f acc (dhead d) _ Ee H1).
+      rewrite E1. cbn [bind]. rewrite F2 by lia. rewrite <- app_assoc. reflexivity.
+Qed.
+
+Lemma item_facts n :
+  str_eqb (ttext n) s_item = true ->
+  signature_of (ttext n) = free_sig /\
+  mem_str (ttext n) Tables.special_commands = false /\ ttext n = s_item.
+Proof.
+  intro H. apply str_eqb_eq in H. rewrite H. repeat split; vm_compute; reflexivity.
+Qed.
+
+(* \item <arguments> hands over to the item loop *)
+Lemma read_expr_item f skip strict m e n src args src1 contents src2 :
+  is_tc TEscape e = true -> mode_is_math m = false ->
+  read_command f (-1) (-1) 0 strict m (n :: src) = Ok ((s_item, args), src1) ->
+  read_item_loop f [] src1 = Ok (contents, src2) ->
+  read_expr (S f) skip strict m (e :: n :: src) =
+  Ok (ECmd (strip s_item) args contents (tpos e), src2).
+Proof.
+  intros He Hm Hc Hi. cbn [read_expr].
+  rewrite (escape_not_math_begin e He), He, Hc. cbn [bind].
+  replace (str_eqb s_item s_item) with true by (vm_compute; reflexivity).
+  rewrite Hm, Hi. reflexivity.
+Qed.
+
+(* ------------------------------------------------------- the induction *)
+
+Theorem PP_all : forall d, PPd d.
+Proof.
+  apply (doc_ind' PPd PPa).
+  - (* leaf *)
+    intros t skip strict m rest _ _ Hwf _ _. exists 1%nat. intros f Hf. destruct f as [|f]; [lia|].
+    cbn [flat tree app]. apply read_expr_leaf. exact Hwf.
+  - (* brace group *)
+    intros o b c Hb skip strict m rest _ _ Hwf _ _. rewrite wf_group in Hwf.
+    apply andb_true_iff in Hwf. destruct Hwf as [Hwf H3].
+    apply andb_true_iff in Hwf. destruct Hwf as [H1 H2].
+    assert (Wa : wf_arg (mode_is_math MNonMath) (Arg None GBrace o b c) = true).
+    { rewrite wf_arg_eq, H2. cbn [mode_is_math]. rewrite H3. unfold opens_group_kind.
+      replace (group_tok_begin GBrace) with (Some TGroupBegin) by (vm_compute; reflexivity).
+      rewrite H1. reflexivity. }
+    destruct (arg_group None GBrace o b c Hb strict MNonMath rest eq_refl Wa) as [f1 F1].
+    exists (S f1). intros f Hf. destruct f as [|f]; [lia|].
+    rewrite flat_group. rewrite <- app_comm_cons.
+    rewrite (read_expr_group_open f skip strict m o _ H1).
+    apply (F1 f). lia.
+  - (* command *)
+    intros e n args Hargs skip strict m rest Hm _ Hwf Hfol _. rewrite wf_cmd in Hwf.
+    apply andb_true_iff in Hwf. destruct Hwf as [Hwf H4].
+    apply andb_true_iff in Hwf. destruct Hwf as [Hwf H3].
+    apply andb_true_iff in Hwf. destruct Hwf as [H1 H2].
+    cbn [follows_ok] in Hfol.
+    destruct (name_ok_parts n H2) as (_ & _ & _ & Hsp).
+    destruct (cmd_head_read n args Hargs strict m rest Hm Hsp H3 H4 Hfol) as [f1 F1].
+    exists (S f1). intros f Hf. destruct f as [|f]; [lia|].
+    rewrite flat_cmd. rewrite <- !app_comm_cons.
+    apply (read_expr_plain_cmd f skip strict m e n _ _ rest H1 H2).
+    apply F1. lia.
+  - (* math region *)
+    intros k o b c Hb skip strict m rest _ _ Hwf _ _. rewrite wf_math in Hwf.
+    apply andb_true_iff in Hwf. destruct Hwf as [Hwf H3].
+    apply andb_true_iff in Hwf. destruct Hwf as [H1 H2].
+    apply opens_math_kind_spec in H1. destruct H1 as [Hk _].
+    pose proof (wf_seq_ext _ (CMath k) b c [] rest (ext_ok_math_end k c H2) H3) as H3'.
+    destruct (seq_math b Hb k (tpos o) strict [] c rest H3' H2) as [f1 F1].
+    exists (S f1). intros f Hf. destruct f as [|f]; [lia|].
+    rewrite flat_math. rewrite <- app_comm_cons, <- app_assoc. cbn [app].
+    rewrite (C12_math_opens f skip strict m o _ k Hk).
+    apply F1. lia.
+  - (* environment *)
+    intros e b ng xargs body e2 en ng2 Hng Hxargs Hbody Hng2 skip strict m rest Hm Hsk Hwf Hfol _.
+    rewrite wf_env in Hwf.
+    apply andb_true_iff in Hwf. destruct Hwf as [Hwf W13].
+    apply andb_true_iff in Hwf. destruct Hwf as [Hwf W12].
+    apply andb_true_iff in Hwf. destruct Hwf as [Hwf W11].
+    apply andb_true_iff in Hwf. destruct Hwf as [Hwf W10].
+    apply andb_true_iff in Hwf. destruct Hwf as [Hwf W9].
+    apply andb_true_iff in Hwf. destruct Hwf as [Hwf W8].
+    apply andb_true_iff in Hwf. destruct Hwf as [Hwf W7].
+    apply andb_true_iff in Hwf. destruct Hwf as [Hwf W7b].
+    apply andb_true_iff in Hwf. destruct Hwf as [Hwf W7a].
+    apply andb_true_iff in Hwf. destruct Hwf as [Hwf W6].
+    apply andb_true_iff in Hwf. destruct Hwf as [Hwf W5].
+    apply andb_true_iff in Hwf. destruct Hwf as [Hwf W4].
+    apply andb_true_iff in Hwf. destruct Hwf as [Hwf W3].
+    apply andb_true_iff in Hwf. destruct Hwf as [W1 W2].
+    apply negb_true_iff in W5, W6.
+    cbn [follows_ok] in Hfol.
+    destruct (begin_facts b W2) as (Hsig & Hsp & Hb).
+    set (tail := e2 :: en :: flat_arg ng2 ++ rest).
+    assert (Ne2 : is_tc TMergedSpacer e2 = false)
+      by (apply (is_tc_excl _ _ _ W9); discriminate).
+    (* the command part of \begin *)
+    assert (Wc : forallb (wf_arg (mode_is_math m)) (ng :: xargs) = true)
+      by (cbn [forallb]; rewrite W3, W7b; reflexivity).
+    assert (Fb : cmd_follow free_sig (ng :: xargs) (flat_list body ++ tail) = true).
+    { unfold tail. change (e2 :: en :: flat_arg ng2 ++ rest)
+                     with (e2 :: [] ++ (en :: flat_arg ng2 ++ rest)).
+      rewrite <- (cmd_follow_ext free_sig (ng :: xargs) (flat_list body) e2 [] _ Ne2). exact W7. }
+    rewrite <- Hsig in W7a, Fb.
+    destruct (cmd_head_read b (ng :: xargs) (Forall_cons _ Hng Hxargs)
+                strict m (flat_list body ++ tail) Hm Hsp W7a Wc Fb)
+      as [f1 F1].
+    (* the body and \end *)
+    assert (Wb : wf_seq (mode_is_math m) CEnv body tail = true).
+    { unfold tail. change (e2 :: en :: flat_arg ng2 ++ rest)
+                     with (e2 :: [en] ++ (flat_arg ng2 ++ rest)).
+      apply wf_seq_ext; [|exact W8]. split; [exact Ne2 | right; discriminate]. }
+    destruct (seq_env body Hbody (env_name ng) (map tree_arg xargs) (tpos e) skip strict m []
+                      e2 en ng2 rest Hm Hsk Wb Hng2 W9 W10 W11 W12 W13 Hfol) as [f2 F2].
+    fold tail in F2.
+    assert (Hskip : mem_str (env_name ng) skip = false).
+    { destruct (mem_str (env_name ng) skip) eqn:E; [|reflexivity].
+      apply Hsk in E. congruence. }
+    exists (S (Nat.max f1 f2)). intros f Hf. destruct f as [|f]; [lia|].
+    rewrite flat_env. rewrite <- !app_comm_cons.
+    assert (E1 := F1 f ltac:(lia)). cbv beta in E1.
+    rewrite Hb in E1. cbn [map] in E1.
+    replace ((flat_args (ng :: xargs) ++ flat_list body ++ e2 :: en :: flat_arg ng2) ++ rest)
+      with (flat_args (ng :: xargs) ++ flat_list body ++ tail).
+    2:{ unfold tail. rewrite <- !app_assoc. rewrite <- !app_comm_cons. reflexivity. }
+    rewrite (read_expr_begin f skip strict m e b _ (tree_arg ng) (map tree_arg xargs) _
+               W1 Hm E1 W5 Hskip).
+    cbn [tree]. apply (F2 f). lia.
+  - (* item *)
+    intros e n args body Hargs Hbody skip strict m rest Hm _ Hwf Hfol Hpk.
+    rewrite wf_item in Hwf.
+    apply andb_true_iff in Hwf. destruct Hwf as [Hwf W5].
+    apply andb_true_iff in Hwf. destruct Hwf as [Hwf W4].
+    apply andb_true_iff in Hwf. destruct Hwf as [Hwf W3].
+    apply andb_true_iff in Hwf. destruct Hwf as [W1 W2].
+    apply negb_true_iff in W1.
+    rewrite follows_ok_item in Hfol.
+    apply andb_true_iff in Hfol. destruct Hfol as [Hfol F3].
+    apply andb_true_iff in Hfol. destruct Hfol as [F1 F2].
+    unfold peek_ok in Hpk. cbn [is_item] in Hpk.
+    destruct (item_facts n W3) as (Hsig & Hsp & Hn).
+    rewrite <- Hsig in W4, F1.
+    destruct (cmd_head_read n args Hargs strict m (flat_list body ++ rest)
+                Hm Hsp W4 W5 F1) as [f1 G1].
+    destruct (seq_item body Hbody [] rest F2 F3 Hpk) as [f2 G2].
+    exists (S (Nat.max f1 f2)). intros f Hf. destruct f as [|f]; [lia|].
+    rewrite flat_item. rewrite <- !app_comm_cons, <- app_assoc.
+    assert (E1 := G1 f ltac:(lia)). cbv beta in E1. rewrite Hn in E1.
+    cbn [tree]. rewrite Hn.
+    apply (read_expr_item f skip strict m e n _ _ _ _ rest W2 W1 E1).
+    apply (G2 f). lia.
+  - (* argument group *)
+    intros sp k o b c Hb. apply arg_group. exact Hb.
+Qed.
+
+Lemma PP_Forall ds : Forall PPd ds.
+Proof. apply Forall_forall. intros d _. apply PP_all. Qed.
+
+(* ------------------------------ explicit fuel (via Stage 0 and TOT) *)
+
+(* one document element, followed by anything its follow condition allows *)
+Theorem PP_expr d skip strict m rest f :
+  mode_is_special m = false -> sub_skip SK skip ->
+  wf (mode_is_math m) d = true -> follows_ok d rest = true -> peek_ok d rest ->
+  (3 * length (flat d ++ rest) + 1 <= f)%nat ->
+  read_expr f skip strict m (flat d ++ rest) = Ok (tree d, rest).
+Proof.
+  intros Hm Hsk Hwf Hfol Hpk Hf.
+  destruct (PP_all d skip strict m rest Hm Hsk Hwf Hfol Hpk) as [f0 F0].
+  apply (fuel_any_expr f0); [apply F0; lia | exact Hf].
+Qed.
+
+(* the body of a group closed by `c` *)
+Theorem PP_seq_group ds k pos strict m acc c rest f :
+  mode_is_special m = false ->
+  wf_seq (mode_is_math m) (CGroup k) ds (c :: rest) = true -> is_group_end k c = true ->
+  (3 * length (flat_list ds ++ c :: rest) + 2 <= f)%nat ->
+  read_arg_loop f k pos strict m acc (flat_list ds ++ c :: rest)
+  = Ok (EGroup k (acc ++ map tree ds) pos, rest).
+Proof.
+  intros Hm Hwf Hc Hf.
+  destruct (seq_group ds (PP_Forall ds) k pos strict m acc c rest Hm Hwf Hc) as [f0 F0].
+  apply (fuel_any_argloop f0); [apply F0; lia | exact Hf].
+Qed.
+
+(* the body of a math region closed by `c` *)
+Theorem PP_seq_math ds k pos strict acc c rest f :
+  wf_seq true (CMath k) ds (c :: rest) = true -> is_math_end k c = true ->
+  (3 * length (flat_list ds ++ c :: rest) + 2 <= f)%nat ->
+  read_math_loop f k pos strict acc (flat_list ds ++ c :: rest)
+  = Ok (EMath k (acc ++ map tree ds) pos, rest).
+Proof.
+  intros Hwf Hc Hf.
+  destruct (seq_math ds (PP_Forall ds) k pos strict acc c rest Hwf Hc) as [f0 F0].
+  apply (fuel_any_math f0); [apply F0; lia | exact Hf].
+Qed.
+
+(* --------------------------------------------------------- top level *)
+
+Lemma read_tex_loop_step f ef skip strict acc toks :
+  toks <> [] ->
+  read_tex_loop (S f) ef skip strict acc toks =
+  bind (read_expr ef skip strict MNonMath toks) (fun '(e, rest) =>
+    read_tex_loop f ef skip strict (acc ++ [e]) rest).
+Proof. destruct toks; [congruence | reflexivity]. Qed.
+
+Theorem PP_tex_loop ds : forall fuel efuel skip strict acc,
+  sub_skip SK skip -> wf_seq false CTop ds [] = true ->
+  (length (flat_list ds) < fuel)%nat -> (3 * length (flat_list ds) + 1 <= efuel)%nat ->
+  read_tex_loop fuel efuel skip strict acc (flat_list ds) = Ok (acc ++ map tree ds).
+Proof.
+  induction ds as [|d ds IH]; intros fuel efuel skip strict acc Hsk Hwf Hfu Hef.
+  - destruct fuel as [|fuel]; [simpl in Hfu; lia|]. simpl. rewrite app_nil_r. reflexivity.
+  - destruct (wf_seq_cons_parts _ _ _ _ _ Hwf) as (_ & _ & H2 & H3 & H4).
+    assert (Hpk : peek_ok d (flat_list ds ++ [])).
+    { apply (elem_peek_ok false d _ H2). intros _.
+      exact (seq_head_peek ds (PP_Forall ds) CTop [] H4 head_peek_nil). }
+    rewrite app_nil_r in H3, Hpk.
+    rewrite flat_list_cons in Hfu, Hef |- *. rewrite app_length in Hfu, Hef.
+    pose proof (flat_length_pos d) as Hpos.
+    destruct fuel as [|fuel]; [lia|].
+    rewrite read_tex_loop_step.
+    2:{ destruct (flat_head d) as [tl ->]. discriminate. }
+    rewrite (PP_expr d skip strict MNonMath (flat_list ds) efuel eq_refl Hsk H2 H3 Hpk)
+      by (rewrite app_length; lia).
+    cbn [bind]. rewrite IH; [|exact Hsk|exact H4|lia|lia].
+    rewrite <- app_assoc. reflexivity.
+Qed.
+
 End WithSkip.
+
+Lemma sub_skip_refl SK : sub_skip SK SK.
+Proof. intros n H. exact H. Qed.
+
+(* PP, top level: the token list of a well-formed document sequence parses
+   to exactly the expected trees, in both tolerance modes; the environment
+   names must not be among the verbatim names (built-in or user's) *)
+Theorem PP_parse_tokens ds strict user :
+  wf_seq (all_skip user) false CTop ds [] = true ->
+  parse_tokens (flat_list ds) strict user = Ok (ERoot (map tree ds)).
+Proof.
+  intro Hwf. unfold parse_tokens, fuel_for.
+  rewrite (PP_tex_loop (all_skip user) ds _ _ _ strict [] (sub_skip_refl _) Hwf) by lia.
+  reflexivity.
+Qed.
